@@ -211,6 +211,38 @@ func c02CtxRoots(v ssa.Value) map[ssa.Value]bool {
 	return out
 }
 
+// c02RootsUp is c02Roots for a value that may live in an extracted helper: a root that is a
+// parameter of a helper whose call sites are all known is replaced by the roots of the
+// arguments bound to it (union over the call sites, depth ≤ LiftDepth).
+func c02RootsUp(w *eng.World, v ssa.Value) map[ssa.Value]bool {
+	return c02LiftRoots(w, v, c02Roots)
+}
+
+// c02CtxRootsUp is c02CtxRoots lifted through helper parameters in the same way.
+func c02CtxRootsUp(w *eng.World, v ssa.Value) map[ssa.Value]bool {
+	return c02LiftRoots(w, v, c02CtxRoots)
+}
+
+func c02LiftRoots(w *eng.World, v ssa.Value, roots func(ssa.Value) map[ssa.Value]bool) map[ssa.Value]bool {
+	out := map[ssa.Value]bool{}
+	var rec func(v ssa.Value, depth int)
+	rec = func(v ssa.Value, depth int) {
+		for r := range roots(v) {
+			if p, ok := r.(*ssa.Parameter); ok && depth > 0 {
+				if ups := w.UpArgSites(p); len(ups) > 0 {
+					for _, u := range ups {
+						rec(u.Arg, depth-1)
+					}
+					continue
+				}
+			}
+			out[r] = true
+		}
+	}
+	rec(v, eng.LiftDepth)
+	return out
+}
+
 func c02SameRoots(a, b map[ssa.Value]bool) bool {
 	if len(a) == 0 || len(a) != len(b) {
 		return false
@@ -274,36 +306,33 @@ func c02LoopHeaders(scc map[*ssa.BasicBlock]bool) []*ssa.BasicBlock {
 	return hs
 }
 
-// c02NilEdges returns, for every If of fn comparing v with nil, the successor taken when v
-// is non-nil.
-func c02NonNilSuccs(fn *ssa.Function, isV func(ssa.Value) bool) []*ssa.BasicBlock {
+// c02EdgesWhere returns the successor blocks entered through an if-edge of fn on which a
+// relation satisfying match is known to hold: the branch condition itself, or what it implies
+// through named conditions, short-circuit values, predicate helpers and the ok / error results
+// of helpers (eng.EdgeFactsDeep).
+func c02EdgesWhere(fn *ssa.Function, match func(eng.Rel) bool) []*ssa.BasicBlock {
 	var out []*ssa.BasicBlock
 	for _, b := range fn.Blocks {
-		if len(b.Instrs) == 0 {
+		if len(b.Instrs) == 0 || b == fn.Recover {
 			continue
 		}
 		iff, ok := b.Instrs[len(b.Instrs)-1].(*ssa.If)
-		if !ok {
+		if !ok || len(b.Succs) != 2 || b.Succs[0] == b.Succs[1] {
 			continue
 		}
-		r := eng.RelOf(iff.Cond, true)
-		var other ssa.Value
-		switch {
-		case isV(r.X):
-			other = r.Y
-		case isV(r.Y):
-			other = r.X
-		default:
-			continue
-		}
-		if !eng.IsNilConst(other) {
-			continue
-		}
-		switch r.Op {
-		case token.NEQ:
-			out = append(out, b.Succs[0])
-		case token.EQL:
-			out = append(out, b.Succs[1])
+		for si := 0; si < 2; si++ {
+			hit := match(eng.RelOf(iff.Cond, si == 0))
+			if !hit {
+				for _, f := range eng.EdgeFactsDeep(b, si) {
+					if match(eng.Rel{Op: f.Rel.Op, X: f.X(), Y: f.Y()}) {
+						hit = true
+						break
+					}
+				}
+			}
+			if hit {
+				out = append(out, b.Succs[si])
+			}
 		}
 	}
 	return out
@@ -312,7 +341,8 @@ func c02NonNilSuccs(fn *ssa.Function, isV func(ssa.Value) bool) []*ssa.BasicBloc
 // ---------------------------------------------------------------------------------------
 
 func c02(c *eng.Ctx) {
-	defer c02Escape(c)
+	var escapers []*ssa.Function
+	defer func() { c02Escape(c, escapers) }()
 	c.Rule("R1", "filter order: the proxy handler chain is installed and nests, on every path of its builder, Authentication outside Impersonation outside Dispatcher, UpstreamInfo outside Authentication, ExtraRequestInfo outside UpstreamInfo, RequestInfo outside ExtraRequestInfo (each inner filter reads the context key its outer one writes: user, ExtraRequestInfo, RequestInfo); a filter wrapped the other way round runs before its input exists (e.g. impersonation authorised for no user, authenticator asked for no host)", 12)
 	c.Rule("R2", "every impersonation is authorised: in the impersonation filter the context user is replaced only after a loop over all impersonation requests in which every iteration passes Authorize(ctx of the request, attributes of that element, user = authenticated user, verb impersonate); the only way to stay in the loop is err == nil and decision == DecisionAllow; every other way out of the loop, and a malformed request, is answered by the gateway and neither forwarded nor given a new user; the new user is built only from the authorised elements", 15)
 	c.Rule("R3", "outbound impersonation headers come from the context user: WrapRequest writes only Impersonate-User/-Group/-Extra-<escaped key> with values from request.UserFrom(req.Context()) onto a clone of the request; RoundTrip sends what WrapRequest returned; addOrUpdateEndpoint stores the impersonating wrapper into the config from which both of the endpoint's transports are built", 10)
@@ -322,16 +352,16 @@ func c02(c *eng.Ctx) {
 	c.Note("C02: accepted idioms — one Authorize call inside the filter's own range/index loop (R2); header sanitizers written as a map range with strings.HasPrefix on the key or its ToLower/Canonical form and Header.Del/delete on the match edge, inline or in a same-repo helper (R5); requests derived with Clone/CloneRequest are treated as separate header maps even when cloned after sanitising (R4/R5 fail closed)")
 	c02R1(c)
 	filter := c.MustFunc(pkgFilters, "WithNoLoggingImpersonation")
-	var cl *ssa.Function
+	var cl *c02Handler
 	if filter != nil {
-		if cl = c02HandlerClosure(filter); cl == nil {
-			c.Fail("engine", filter, "unresolved-anchor handler closure of WithNoLoggingImpersonation", filter.Pos(), "expected exactly one func(w, req) literal")
+		if cl = c02FindHandler(c, filter); cl == nil {
+			c.Fail("engine", filter, "unresolved-anchor handler closure of WithNoLoggingImpersonation", filter.Pos(), "expected the filter to return exactly one handler body: a func(w, req) literal, a method value or an object with a ServeHTTP method")
 		}
 	}
 	if cl != nil {
 		c02R2(c, filter, cl)
 	}
-	c02R3(c)
+	escapers = c02R3(c)
 	c02R4(c)
 	if cl != nil {
 		c02R5(c, filter, cl)
@@ -342,38 +372,74 @@ func c02(c *eng.Ctx) {
 // R1 filter order
 
 func c02R1(c *eng.Ctx) {
-	builder := c.MustFunc(pkgApp, "buildProxyHandlerChainFunc")
-	if builder == nil {
+	// The chain function is found by its role: it is the function value the proxy server's
+	// config is given as BuildHandlerChainFunc — a literal returned by a builder function
+	// (today's shape), a method value, or a plain function.
+	cp := c.MustFunc(pkgApp, "CreateProxyConfig")
+	if cp == nil {
 		return
+	}
+	isChainSig := func(f *ssa.Function) bool {
+		return f != nil && f.Blocks != nil && len(f.Params) >= 1 && f.Signature.Results().Len() == 1 && c02IsHandlerType(f.Signature.Results().At(0).Type()) &&
+			(c02IsHandlerType(f.Params[0].Type()) || (f.Signature.Recv() != nil && len(f.Params) >= 2 && c02IsHandlerType(f.Params[1].Type())))
+	}
+	var funcValues func(v ssa.Value, depth int) []*ssa.Function
+	funcValues = func(v ssa.Value, depth int) []*ssa.Function {
+		if f := c.W.FuncOfValue(v); f != nil {
+			return []*ssa.Function{f}
+		}
+		cc, _ := eng.CallResultOf(v)
+		if cc == nil || depth <= 0 {
+			return []*ssa.Function{nil}
+		}
+		g := cc.Call.StaticCallee()
+		if g == nil || !eng.Analysable(g) {
+			return []*ssa.Function{nil}
+		}
+		var out []*ssa.Function
+		eng.Instrs(g, func(ins ssa.Instruction) {
+			if r, ok := ins.(*ssa.Return); ok && len(r.Results) == 1 && r.Block() != g.Recover {
+				out = append(out, funcValues(r.Results[0], depth-1)...)
+			}
+		})
+		return out
 	}
 	var chain *ssa.Function
-	for _, a := range builder.AnonFuncs {
-		if len(a.Params) >= 1 && c02IsHandlerType(a.Params[0].Type()) && a.Signature.Results().Len() == 1 && c02IsHandlerType(a.Signature.Results().At(0).Type()) {
-			if chain != nil {
-				c.Fail("engine", builder, "unresolved-anchor chain closure", builder.Pos(), "more than one handler-chain literal")
-				return
+	installed, nStores := true, 0
+	for _, st := range eng.StoresToField(c.W.Region(cp), "k8s.io/apiserver/pkg/server.Config", "BuildHandlerChainFunc") {
+		nStores++
+		for _, f := range funcValues(st.Val, 2) {
+			if !isChainSig(f) || (chain != nil && chain != f) {
+				installed = false
+				continue
 			}
-			chain = a
+			if p := eng.Outermost(f); p.Pkg == nil || p.Pkg.Pkg.Path() != pkgApp {
+				installed = false
+				continue
+			}
+			chain = f
 		}
 	}
+	installed = installed && nStores > 0 && chain != nil
+	c.Check("R1", cp, "proxy server installs buildProxyHandlerChainFunc", cp.Pos(), installed, "the generic server must build its handler chain with the gateway's chain function, otherwise none of the identity filters runs")
 	if chain == nil {
-		c.Fail("engine", builder, "unresolved-anchor chain closure", builder.Pos(), "no func(http.Handler, *Config) http.Handler literal")
+		c.Fail("engine", cp, "unresolved-anchor chain closure", cp.Pos(), "the function installed as BuildHandlerChainFunc could not be resolved to a function of cmd/kube-gateway/app")
 		return
 	}
 
-	// the chain is what the proxy server installs
-	installed := false
-	if cp := c.MustFunc(pkgApp, "CreateProxyConfig"); cp != nil {
-		for _, st := range eng.StoresToField([]*ssa.Function{cp}, "k8s.io/apiserver/pkg/server.Config", "BuildHandlerChainFunc") {
-			cc, _ := eng.CallResultOf(st.Val)
-			installed = cc != nil && cc.Call.StaticCallee() == builder
+	// a link is a call  f(handler, ...) http.Handler  (or a method helper x.f(handler, ...)); its
+	// role is decided by callee identity. inIdx is the position of the handler it wraps.
+	inIdx := func(call *ssa.Call) int {
+		if len(call.Call.Args) > 0 && c02IsHandlerType(call.Call.Args[0].Type()) {
+			return 0
 		}
-		c.Check("R1", cp, "proxy server installs buildProxyHandlerChainFunc", cp.Pos(), installed, "the generic server must build its handler chain with the gateway's chain function, otherwise none of the identity filters runs")
+		if g := call.Call.StaticCallee(); g != nil && g.Signature.Recv() != nil && len(call.Call.Args) > 1 && c02IsHandlerType(call.Call.Args[1].Type()) {
+			return 1
+		}
+		return -1
 	}
-
-	// a link is a call  f(handler, ...) http.Handler ; its role is decided by callee identity
 	isLink := func(call *ssa.Call) bool {
-		return len(call.Call.Args) > 0 && !call.Call.IsInvoke() && c02IsHandlerType(call.Type()) && c02IsHandlerType(call.Call.Args[0].Type())
+		return !call.Call.IsInvoke() && c02IsHandlerType(call.Type()) && inIdx(call) >= 0
 	}
 	reqInfoGlobalOK, reqInfoWhy := c02RequestInfoAlias(c)
 	role := func(call *ssa.Call) string {
@@ -409,7 +475,7 @@ func c02R1(c *eng.Ctx) {
 		if g == nil || g.Blocks == nil || g.Pkg == nil || g.Pkg.Pkg.Path() != pkgApp || role(call) != "" {
 			return nil
 		}
-		if len(g.Params) == 0 || !c02IsHandlerType(g.Params[0].Type()) {
+		if i := inIdx(call); i < 0 || i >= len(g.Params) {
 			return nil
 		}
 		return g
@@ -451,17 +517,18 @@ func c02R1(c *eng.Ctx) {
 			if !isLink(n) {
 				return map[*ssa.Call]bool{}
 			}
-			in := must(n.Call.Args[0], seen)
+			in := must(n.Call.Args[inIdx(n)], seen)
 			if g := isHelper(n); g != nil {
-				if _, busy := env[g.Params[0]]; !busy {
-					env[g.Params[0]] = in
+				gp := g.Params[inIdx(n)]
+				if _, busy := env[gp]; !busy {
+					env[gp] = in
 					var acc map[*ssa.Call]bool
 					eng.Instrs(g, func(ins ssa.Instruction) {
 						if r, ok := ins.(*ssa.Return); ok && len(r.Results) == 1 {
 							acc = inter(acc, must(r.Results[0], seen))
 						}
 					})
-					delete(env, g.Params[0])
+					delete(env, gp)
 					if acc == nil {
 						acc = map[*ssa.Call]bool{}
 					}
@@ -606,52 +673,289 @@ func c02RequestInfoAlias(c *eng.Ctx) (bool, string) {
 
 // ---------------------------------------------------------------------------------------
 // R2 every impersonation is authorised
+//
+// The rule is stated over the filter's handler closure, but its constructs may sit in helpers
+// of the closure's Region (the Authorize call behind a named predicate, the forward behind a
+// shared "strip and serve" tail, the attribute record filled by a helper). Every construct is
+// therefore looked up in the Region, lifted to the instruction of the closure under which it
+// executes (SitesUp), and every value of a helper is related to the closure's values through
+// the complete list of the helper's call sites (UpVals / UpChains).
 
-func c02R2(c *eng.Ctx, filter, cl *ssa.Function) {
-	req := ssa.Value(cl.Params[1])
+// c02Handler is the body a filter constructor turns into its http.Handler: a func(w, req)
+// literal (which captures the constructor's parameters), a method value `f.serve`, or the
+// ServeHTTP method of an object the constructor builds (whose fields then hold what the
+// literal captured).
+type c02Handler struct {
+	fn   *ssa.Function
+	req  *ssa.Parameter
+	recv *ssa.Alloc // the receiver object built by the constructor (nil for a literal)
+}
+
+// c02FindHandler resolves what constructor `outer` returns to its handler body.
+func c02FindHandler(c *eng.Ctx, outer *ssa.Function) *c02Handler {
+	var found []*c02Handler
+	add := func(fn *ssa.Function, recv *ssa.Alloc) {
+		if fn == nil || fn.Blocks == nil {
+			return
+		}
+		n := len(fn.Params)
+		if n < 2 || eng.TypeName(fn.Params[n-2].Type()) != "net/http.ResponseWriter" || !c02IsRequestPtr(fn.Params[n-1].Type()) {
+			return
+		}
+		for _, h := range found {
+			if h.fn == fn {
+				return
+			}
+		}
+		found = append(found, &c02Handler{fn: fn, req: fn.Params[n-1], recv: recv})
+	}
+	eng.Instrs(outer, func(ins ssa.Instruction) {
+		r, ok := ins.(*ssa.Return)
+		if !ok || len(r.Results) != 1 || r.Block() == outer.Recover {
+			return
+		}
+		for _, l := range c.Slicer().Leaves(r.Results[0], func(v ssa.Value) bool {
+			switch v.(type) {
+			case *ssa.MakeClosure, *ssa.Alloc, *ssa.Function:
+				return true
+			}
+			return false
+		}) {
+			switch n := l.(type) {
+			case *ssa.Function:
+				add(n, nil)
+			case *ssa.MakeClosure:
+				fn, _ := n.Fn.(*ssa.Function)
+				if fn != nil && fn.Synthetic != "" && len(n.Bindings) == 1 {
+					recv, _ := c.W.ResolveCtx(n.Bindings[0], nil, false).V.(*ssa.Alloc)
+					add(c.W.FuncOfValue(n), recv)
+				} else {
+					add(fn, nil)
+				}
+			case *ssa.Alloc:
+				pt, _ := n.Type().Underlying().(*types.Pointer)
+				if pt == nil {
+					continue
+				}
+				if named, isNamed := pt.Elem().(*types.Named); isNamed {
+					add(c.W.DeclaredMethod(named, "ServeHTTP"), n)
+				}
+			}
+		}
+	})
+	if len(found) != 1 {
+		return nil
+	}
+	return found[0]
+}
+
+// leaves returns the leaves of v's slice in calling context ch; a load of a field of the
+// handler's receiver object is continued in what the constructor stored into that field
+// (the variable the literal would have captured).
+func (h *c02Handler) leaves(c *eng.Ctx, ch eng.UpChain, v ssa.Value) []ssa.Value {
+	sl := c.Slicer()
+	if h.recv == nil || h.fn.Signature.Recv() == nil {
+		return ch.Leaves(sl, v, nil)
+	}
+	field := func(x ssa.Value) (int, bool) {
+		ld, ok := x.(*ssa.UnOp)
+		if !ok || ld.Op != token.MUL {
+			return 0, false
+		}
+		fa, ok := ld.X.(*ssa.FieldAddr)
+		if !ok || c.W.ResolveUp(fa.X) != ssa.Value(h.fn.Params[0]) {
+			return 0, false
+		}
+		return fa.Field, true
+	}
+	var out []ssa.Value
+	for _, l := range ch.Leaves(sl, v, func(x ssa.Value) bool { _, ok := field(x); return ok }) {
+		if f, ok := field(l); ok {
+			if sv := eng.SingleFieldStoreOf(h.recv, f); sv != nil {
+				out = append(out, sl.Leaves(sv, nil)...)
+				continue
+			}
+		}
+		out = append(out, l)
+	}
+	return out
+}
+
+// c02Forward is one place of the filter's handler from which the wrapped handler runs.
+type c02Forward struct {
+	site ssa.Instruction     // instruction of the handler closure under which the call executes
+	call ssa.CallInstruction // the ServeHTTP invocation itself (== site when it sits in the handler)
+}
+
+// c02Forwards returns the invocations of the handler that filter constructor `outer` wraps (its
+// first parameter) made by handler closure cl or by a helper of its Region, one entry per site
+// in cl (a ServeHTTP call in a helper shared by two paths of the closure counts twice).
+func c02Forwards(c *eng.Ctx, h *c02Handler, outer *ssa.Function) []c02Forward {
+	if len(outer.Params) == 0 || !c02IsHandlerType(outer.Params[0].Type()) {
+		return nil
+	}
+	cl := h.fn
+	stop := func(f *ssa.Function) bool { return f == cl }
+	var out []c02Forward
+	for _, fn := range c.W.Region(cl) {
+		for _, ci := range eng.CallsTo(fn, c02ServeHTTP) {
+			ok := true
+			for _, ch := range c.W.UpChains(fn, stop) {
+				ls := h.leaves(c, ch, eng.Receiver(ci))
+				if len(ls) == 0 {
+					ok = false
+				}
+				for _, l := range ls {
+					if l != ssa.Value(outer.Params[0]) {
+						ok = false
+					}
+				}
+			}
+			if !ok {
+				continue
+			}
+			for _, s := range c.W.SitesUp(cl, ci) {
+				out = append(out, c02Forward{s, ci})
+			}
+		}
+	}
+	sort.SliceStable(out, func(i, j int) bool { return c02Before(cl, out[i].site, out[j].site) })
+	return out
+}
+
+// c02Before orders instructions canonically: those of fn first, in block order.
+func c02Before(fn *ssa.Function, a, b ssa.Instruction) bool {
+	ka, kb := c02OrderKey(fn, a), c02OrderKey(fn, b)
+	for i := range ka {
+		if ka[i] != kb[i] {
+			return ka[i] < kb[i]
+		}
+	}
+	return false
+}
+
+func c02OrderKey(fn *ssa.Function, a ssa.Instruction) [3]int {
+	k := [3]int{1, 0, 0}
+	if a.Parent() == fn {
+		k[0] = 0
+	}
+	if a.Block() != nil {
+		k[1] = a.Block().Index
+		k[2] = eng.InstrIndex(a)
+	}
+	return k
+}
+
+// c02ParseCall finds the call that turns the client's impersonation headers into the list of
+// requested identities: buildImpersonationRequests, or — should it be renamed — the only call
+// in the handler's Region of a function of the filters package that takes the request's header
+// and returns (list, error).
+func c02ParseCall(c *eng.Ctx, region []*ssa.Function) ([]*ssa.Call, string) {
+	var named, byRole []*ssa.Call
+	for _, fn := range region {
+		for _, ci := range eng.Calls(fn) {
+			call, ok := ci.(*ssa.Call)
+			if !ok {
+				continue
+			}
+			g := call.Call.StaticCallee()
+			if g == nil || g.Pkg == nil || g.Pkg.Pkg.Path() != pkgFilters {
+				continue
+			}
+			if g.Name() == "buildImpersonationRequests" {
+				named = append(named, call)
+				continue
+			}
+			res := g.Signature.Results()
+			if res.Len() != 2 || eng.TypeName(res.At(1).Type()) != "error" || len(call.Call.Args) != 1 || !c02RealVocab.isHeader(call.Call.Args[0].Type()) {
+				continue
+			}
+			if sl, isSl := res.At(0).Type().Underlying().(*types.Slice); isSl && eng.TypeName(sl.Elem()) == "k8s.io/api/core/v1.ObjectReference" {
+				byRole = append(byRole, call)
+			}
+		}
+	}
+	if len(named) > 0 {
+		return named, "buildImpersonationRequests"
+	}
+	return byRole, "the header parser"
+}
+
+func c02R2(c *eng.Ctx, filter *ssa.Function, hd *c02Handler) {
+	cl := hd.fn
+	req := ssa.Value(hd.req)
+	region := c.W.Region(cl)
+	allUp := func(v ssa.Value, pred func(ssa.Value) bool) bool {
+		vs := c.W.UpVals(v)
+		for _, x := range vs {
+			if !pred(x) {
+				return false
+			}
+		}
+		return len(vs) > 0
+	}
 	isReqRooted := func(v ssa.Value) bool {
-		r := c02Roots(v)
+		r := c02RootsUp(c.W, v)
 		return len(r) == 1 && r[req]
 	}
 	isReqCtx := func(v ssa.Value) bool {
-		cc, _ := eng.CallResultOf(v)
-		if cc == nil || !eng.IsCall(cc, c02ReqContext) {
-			return false
-		}
-		r := c02CtxRoots(cc.Call.Args[0])
-		return len(r) == 1 && r[req]
+		return allUp(v, func(x ssa.Value) bool {
+			cc, _ := eng.CallResultOf(x)
+			if cc == nil || !eng.IsCall(cc, c02ReqContext) {
+				return false
+			}
+			r := c02CtxRootsUp(c.W, cc.Call.Args[0])
+			return len(r) == 1 && r[req]
+		})
 	}
 
-	builds := eng.CallsTo(cl, pkgFilters+".buildImpersonationRequests")
+	builds, parserName := c02ParseCall(c, region)
 	if len(builds) != 1 {
 		c.Fail("R2", cl, "single buildImpersonationRequests", cl.Pos(), fmt.Sprintf("expected one call, found %d", len(builds)))
 		return
 	}
-	bc := builds[0].(*ssa.Call)
+	bc := builds[0]
+	if bc.Parent() != cl {
+		c.Undecided("R2", cl, "single buildImpersonationRequests", bc.Pos(), "the impersonation headers are parsed outside the filter's handler closure (in "+eng.FuncName(bc.Parent())+"); the list the authorisation loop ranges over cannot be related to the parse for this shape")
+		return
+	}
 	isReqs := func(v ssa.Value) bool { cc, i := eng.CallResultOf(v); return cc == bc && i == 0 }
 	isBuildErr := func(v ssa.Value) bool { cc, i := eng.CallResultOf(v); return cc == bc && i == 1 }
 	{
 		a := eng.Args(bc)
 		ok := len(a) == 1 && isReqRooted(a[0])
-		c.Check("R2", cl, "requests parsed from this request's header", bc.Pos(), ok, "buildImpersonationRequests must read the header of the request being served")
+		c.Check("R2", cl, "requests parsed from this request's header", bc.Pos(), ok, parserName+" must read the header of the request being served")
 	}
 
-	nexts := c02NextHandlerCalls(c, cl, filter)
-	withUsers := eng.CallsTo(cl, c02WithUser)
-	isForward := func(ins ssa.Instruction) bool {
-		for _, x := range nexts {
-			if ins == ssa.Instruction(x) {
-				return true
-			}
-		}
-		for _, x := range withUsers {
-			if ins == ssa.Instruction(x) {
-				return true
-			}
-		}
-		return false
+	nexts := c02Forwards(c, hd, filter)
+	fwdCall := map[ssa.Instruction]bool{}
+	for _, x := range nexts {
+		fwdCall[x.call] = true
 	}
-	isResponder := func(ins ssa.Instruction) bool {
+	// the context user is swapped by request.WithUser, wherever in the Region it is called
+	type c02Swap struct {
+		site ssa.Instruction
+		call ssa.CallInstruction
+	}
+	var withUsers []c02Swap
+	for _, fn := range region {
+		for _, wu := range eng.CallsTo(fn, c02WithUser) {
+			sites := c.W.SitesUp(cl, wu)
+			if len(sites) == 0 {
+				sites = []ssa.Instruction{wu} // callers unknown: judged where it stands (fails the position checks)
+			}
+			for _, s := range sites {
+				withUsers = append(withUsers, c02Swap{s, wu})
+			}
+		}
+	}
+	sort.SliceStable(withUsers, func(i, j int) bool { return c02Before(cl, withUsers[i].site, withUsers[j].site) })
+	// a call of a helper in which a forward / a swap of the user is reachable counts as one
+	isForward := eng.LiftMay(func(ins ssa.Instruction) bool {
+		return fwdCall[ins] || eng.IsCall(ins, c02WithUser)
+	})
+	// a call of a helper that writes an error response on every path counts as a responder
+	isResponder := eng.LiftMust(func(ins ssa.Instruction) bool {
 		ci, ok := ins.(*ssa.Call)
 		if !ok {
 			return false
@@ -667,68 +971,227 @@ func c02R2(c *eng.Ctx, filter, cl *ssa.Function) {
 			return o.Name() == "TerminateWithError"
 		}
 		return false
-	}
-	// refused(b): from b on the request is answered by the gateway and neither forwarded nor re-identified
-	refused := func(b *ssa.BasicBlock) string {
-		if x := eng.ReachFromBlock(b, eng.PathQuery{Target: isForward}); x != nil {
-			return "the next handler / WithUser is reachable after the refusal"
+	})
+	// respondedBy: boolean v having value b shows that an error response was written — v is the
+	// result of a helper that answers the request on every path on which it yields b (the
+	// "handled" flag of a block that was extracted together with its early return)
+	respondedBy := func(v ssa.Value, b bool) bool {
+		call, idx := eng.CallResultOf(v)
+		if call == nil {
+			return false
 		}
-		if x := eng.ReachFromBlock(b, eng.PathQuery{Target: eng.IsExit, Avoid: isResponder}); x != nil {
-			return "a path returns without writing an error response"
+		g := call.Call.StaticCallee()
+		if g == nil || !eng.Analysable(g) {
+			return false
+		}
+		if idx < 0 {
+			idx = 0
+		}
+		if res := g.Signature.Results(); idx >= res.Len() || !types.Identical(res.At(idx).Type().Underlying(), types.Typ[types.Bool]) {
+			return false
+		}
+		n, ok := 0, true
+		eng.Instrs(g, func(ins ssa.Instruction) {
+			r, isRet := ins.(*ssa.Return)
+			if !isRet || r.Block() == g.Recover {
+				return
+			}
+			if vals := eng.ReturnResults(r); idx >= len(vals) || eng.IsBoolConst(vals[idx], !b) {
+				return
+			}
+			n++
+			if !eng.AlwaysBefore(g, r, isResponder) {
+				ok = false
+			}
+		})
+		return ok && n > 0
+	}
+	responded := func(b *ssa.BasicBlock) bool {
+		if len(b.Instrs) == 0 {
+			return false
+		}
+		for _, r := range eng.RelsAt(b.Instrs[0]) {
+			if r.Op != token.EQL && r.Op != token.NEQ {
+				continue
+			}
+			for _, val := range []bool{true, false} {
+				if eng.IsBoolConst(r.Y, val) && respondedBy(r.X, val == (r.Op == token.EQL)) {
+					return true
+				}
+			}
+		}
+		return false
+	}
+	// refused(b): from b on the request is answered by the gateway and neither forwarded nor
+	// re-identified. When b sits in a helper of the handler (the extracted authorisation loop)
+	// the search continues behind the helper's call, under what the return statement taken
+	// tells the caller (`return "", nil, false` makes the caller's `if !ok { return }` certain).
+	var refusedAfter func(site ssa.Instruction, assume eng.BoolFacts, answered bool, depth int) string
+	continueInCaller := func(fn *ssa.Function, rets []*ssa.Return, open map[*ssa.Return]bool, depth int) string {
+		if fn == cl || len(rets) == 0 {
+			return ""
+		}
+		sites := c.W.GuardSites(fn)
+		if len(sites) == 0 || depth <= 0 {
+			return "the refusal happens in " + eng.FuncName(fn) + ", whose callers are not all known"
+		}
+		for _, site := range sites {
+			call, isCall := site.(*ssa.Call)
+			if !isCall || call.Call.StaticCallee() != fn {
+				return "the refusal happens in " + eng.FuncName(fn) + ", which does not run as a plain call"
+			}
+			for _, r := range rets {
+				if w := refusedAfter(call, eng.ReturnAssumptions(call, r), !open[r], depth-1); w != "" {
+					return w
+				}
+			}
 		}
 		return ""
+	}
+	// returnsFrom: the returns of the function reachable by a search, and those among them reachable without a responder
+	returnsOf := func(reach func(q eng.PathQuery) ssa.Instruction, fn *ssa.Function) (all []*ssa.Return, open map[*ssa.Return]bool) {
+		open = map[*ssa.Return]bool{}
+		eng.Instrs(fn, func(ins ssa.Instruction) {
+			r, isRet := ins.(*ssa.Return)
+			if !isRet || r.Block() == fn.Recover {
+				return
+			}
+			is := func(i ssa.Instruction) bool { return i == ssa.Instruction(r) }
+			if reach(eng.PathQuery{Target: is}) != nil {
+				all = append(all, r)
+				if reach(eng.PathQuery{Target: is, Avoid: isResponder}) != nil {
+					open[r] = true
+				}
+			}
+		})
+		return all, open
+	}
+	refusedAfter = func(site ssa.Instruction, assume eng.BoolFacts, answered bool, depth int) string {
+		fn := site.Parent()
+		fq := func(q eng.PathQuery) ssa.Instruction {
+			return eng.FactReachAfter(site, eng.FactQuery{Assume: assume, Avoid: q.Avoid,
+				Target: func(i ssa.Instruction, _ eng.KnownFn) bool { return q.Target(i) }})
+		}
+		if fq(eng.PathQuery{Target: isForward}) != nil {
+			return "the next handler / WithUser is reachable after the refusal"
+		}
+		if fn == cl {
+			if !answered && fq(eng.PathQuery{Target: eng.IsExit, Avoid: isResponder}) != nil {
+				return "a path returns without writing an error response"
+			}
+			return ""
+		}
+		rets, open := returnsOf(fq, fn)
+		if answered {
+			open = map[*ssa.Return]bool{}
+		}
+		return continueInCaller(fn, rets, open, depth)
+	}
+	refused := func(b *ssa.BasicBlock) string {
+		fn := b.Parent()
+		from := func(q eng.PathQuery) ssa.Instruction { return eng.ReachFromBlock(b, q) }
+		if from(eng.PathQuery{Target: isForward}) != nil {
+			return "the next handler / WithUser is reachable after the refusal"
+		}
+		answered := responded(b)
+		if fn == cl {
+			if !answered && from(eng.PathQuery{Target: eng.IsExit, Avoid: isResponder}) != nil {
+				return "a path returns without writing an error response"
+			}
+			return ""
+		}
+		rets, open := returnsOf(from, fn)
+		if answered {
+			open = map[*ssa.Return]bool{}
+		}
+		return continueInCaller(fn, rets, open, eng.LiftDepth)
 	}
 
 	// (1) malformed impersonation headers are answered by the gateway
 	{
-		succs := c02NonNilSuccs(cl, isBuildErr)
+		// the edges on which the parse error is known to be non-nil: `err != nil` itself, or a
+		// condition that implies it (a named condition, a helper testing the error it is handed)
+		succs := c02EdgesWhere(cl, func(r eng.Rel) bool {
+			return r.Op == token.NEQ && ((eng.IsNilConst(r.Y) && isBuildErr(r.X)) || (eng.IsNilConst(r.X) && isBuildErr(r.Y)))
+		})
 		why := ""
 		if len(succs) == 0 {
-			why = "the error of buildImpersonationRequests is never tested"
+			why = "the error of " + parserName + " is never tested"
 		}
 		for _, s := range succs {
 			if w := refused(s); w != "" {
 				why = w
 			}
 		}
-		c.Check("R2", cl, "malformed impersonation ⇒ answered, not forwarded", bc.Pos(), why == "", "on the err != nil edge of buildImpersonationRequests the filter must write an error and return"+c02Found(why))
+		c.Check("R2", cl, "malformed impersonation ⇒ answered, not forwarded", bc.Pos(), why == "", "on the err != nil edge of "+parserName+" the filter must write an error and return"+c02Found(why))
 	}
 
 	// (1b) nothing is forwarded without having been parsed: the parse is the only place that
 	// recognises a malformed header combination, so every forward lies behind it
 	for i, nx := range nexts {
-		ok := eng.AlwaysBefore(cl, nx.(ssa.Instruction), func(ins ssa.Instruction) bool { return ins == ssa.Instruction(bc) })
-		c.Check("R2", cl, fmt.Sprintf("forward#%d only after the impersonation headers were parsed", i+1), nx.Pos(), ok,
-			"a path reaches the next handler without buildImpersonationRequests: a malformed impersonation (groups/extras without a user) on that path is forwarded instead of being answered")
+		ok := eng.AlwaysBefore(nx.site.Parent(), nx.site, func(ins ssa.Instruction) bool { return ins == ssa.Instruction(bc) })
+		c.Check("R2", cl, fmt.Sprintf("forward#%d only after the impersonation headers were parsed", i+1), nx.site.Pos(), ok,
+			"a path reaches the next handler without "+parserName+": a malformed impersonation (groups/extras without a user) on that path is forwarded instead of being answered")
 	}
 
 	// (2) the authorisation loop
 	var auths []*ssa.Call
-	for _, ci := range eng.CallsTo(cl, c02Authorize) {
-		if call, ok := ci.(*ssa.Call); ok {
-			auths = append(auths, call)
+	for _, fn := range region {
+		for _, ci := range eng.CallsTo(fn, c02Authorize) {
+			if call, ok := ci.(*ssa.Call); ok {
+				auths = append(auths, call)
+			}
 		}
 	}
 	if len(auths) != 1 {
-		// the accepted idiom is one Authorize call in the filter's own loop; a refactor that moves it
-		// into a helper or splits it per kind is a shape this rule does not classify (fails closed)
-		c.Undecided("R2", cl, "single Authorize in the loop", cl.Pos(), fmt.Sprintf("expected exactly one Authorize call in the filter's handler, found %d; the per-iteration authorisation facts cannot be established for this shape", len(auths)))
+		// the accepted idiom is one Authorize call per element (in the loop or in a helper the loop calls); a
+		// refactor that splits it per kind is a shape this rule does not classify (fails closed)
+		c.Undecided("R2", cl, "single Authorize in the loop", cl.Pos(), fmt.Sprintf("expected exactly one Authorize call in the filter's handler (or a helper of it), found %d; the per-iteration authorisation facts cannot be established for this shape", len(auths)))
 		return
 	}
 	A := auths[0]
+	isA := func(ins ssa.Instruction) bool { return ins == ssa.Instruction(A) }
+	// L: the instruction under which Authorize executes in the function that holds the loop over
+	// the requests — A itself, or the call of the helper holding it. The loop normally sits in
+	// the handler; when the whole loop was extracted, LF is that helper and S its call in the handler.
+	var L ssa.Instruction = A
+	for i := 0; i <= eng.LiftDepth && len(c02SCC(L.Block())) == 0 && L.Parent() != cl; i++ {
+		sites := c.W.GuardSites(L.Parent())
+		if len(sites) != 1 {
+			c.Undecided("R2", cl, "single Authorize in the loop", A.Pos(), fmt.Sprintf("Authorize sits in helper %s which is reached through %d sites; the per-iteration authorisation facts cannot be established for this shape", eng.FuncName(L.Parent()), len(sites)))
+			return
+		}
+		L = sites[0]
+	}
+	LF := L.Parent()
+	var S ssa.Instruction // the call in the handler under which the loop runs (nil: the loop is in the handler)
+	if LF != cl {
+		sites := c.W.SitesUp(cl, L)
+		if len(sites) != 1 || sites[0].Parent() != cl {
+			c.Undecided("R2", cl, "single Authorize in the loop", A.Pos(), fmt.Sprintf("the authorisation loop sits in %s which the filter's handler reaches through %d sites; the per-iteration authorisation facts cannot be established for this shape", eng.FuncName(LF), len(sites)))
+			return
+		}
+		S = sites[0]
+	}
+	chainsA := c.W.UpChains(A.Parent(), func(f *ssa.Function) bool { return f == cl })
 	{
 		// the authorizer is the one handed to the filter constructor
-		ls := c.Slicer().Leaves(eng.Receiver(A), nil)
-		ok := len(ls) > 0
-		for _, l := range ls {
-			p, isP := l.(*ssa.Parameter)
-			if !isP || p.Parent() != filter {
+		ok := true
+		for _, ch := range chainsA {
+			ls := hd.leaves(c, ch, eng.Receiver(A))
+			if len(ls) == 0 {
 				ok = false
+			}
+			for _, l := range ls {
+				p, isP := l.(*ssa.Parameter)
+				if !isP || p.Parent() != filter {
+					ok = false
+				}
 			}
 		}
 		c.Check("R2", cl, "Authorize on the filter's authorizer", A.Pos(), ok, "the authorizer consulted is the one the chain builder passed (the multi-cluster SAR authorizer, C12)")
 	}
-	scc := c02SCC(A.Block())
+	scc := c02SCC(L.Block())
 	hs := c02LoopHeaders(scc)
 	if len(scc) == 0 || len(hs) != 1 {
 		c.Fail("R2", cl, "Authorize inside the loop over the impersonation requests", A.Pos(), "Authorize is not inside a single-entry loop")
@@ -739,8 +1202,21 @@ func c02R2(c *eng.Ctx, filter, cl *ssa.Function) {
 	if !okAllow {
 		c.Fail("engine", nil, "unresolved-anchor const authorizer.DecisionAllow", 0, "constant not found")
 	}
-	errV := func(v ssa.Value) bool { cc, i := eng.CallResultOf(v); return cc == A && i == 2 }
-	decV := func(v ssa.Value) bool { cc, i := eng.CallResultOf(v); return cc == A && i == 0 }
+	// a value is result #idx of this Authorize call: the Extract itself, or what a helper on the way hands on unchanged
+	resOfA := func(v ssa.Value, idx int) bool {
+		if cc, i := eng.CallResultOf(v); cc == A {
+			return i == idx
+		}
+		ls := c.W.CtxLeaves(v, nil, func(x ssa.Value) bool { cc, _ := eng.CallResultOf(x); return cc == A }, eng.LiftDepth, false)
+		for _, l := range ls {
+			if cc, i := eng.CallResultOf(l.V); cc != A || i != idx {
+				return false
+			}
+		}
+		return len(ls) > 0
+	}
+	errV := func(v ssa.Value) bool { return resOfA(v, 2) }
+	decV := func(v ssa.Value) bool { return resOfA(v, 0) }
 
 	// (2a) the loop visits every request and every iteration passes Authorize
 	{
@@ -749,12 +1225,12 @@ func c02R2(c *eng.Ctx, filter, cl *ssa.Function) {
 		if iff, ok := H.Instrs[len(H.Instrs)-1].(*ssa.If); ok {
 			r := eng.RelOf(iff.Cond, true)
 			ln := c02IsBuiltin(r.Y, "len")
-			if r.Op == token.LSS && ln != nil && isReqs(ln.Call.Args[0]) && scc[H.Succs[0]] && !scc[H.Succs[1]] {
+			if r.Op == token.LSS && ln != nil && allUp(ln.Call.Args[0], isReqs) && scc[H.Succs[0]] && !scc[H.Succs[1]] {
 				idx = r.X
 			}
 		}
 		if idx == nil {
-			why = "the loop containing Authorize is not `for … range <result of buildImpersonationRequests>`"
+			why = "the loop containing Authorize is not `for … range <result of " + parserName + ">`"
 		} else {
 			// the index visits 0..len-1 in steps of one: either the range lowering
 			// idx = phi(-1, idx) + 1, or the classic  i = phi(0, i+1)
@@ -795,12 +1271,15 @@ func c02R2(c *eng.Ctx, filter, cl *ssa.Function) {
 				why = "the loop index does not visit every element once"
 			}
 		}
-		if why == "" && A.Block() != H {
+		if why == "" && L != ssa.Instruction(A) && !eng.LiftMust(isA)(L) {
+			why = "the helper " + eng.FuncName(A.Parent()) + " called in the loop has a path that returns without calling Authorize"
+		}
+		if why == "" && L.Block() != H {
 			// a cycle through the loop that avoids Authorize's block = an element accepted unauthorised
 			seen := map[*ssa.BasicBlock]bool{}
 			work := []*ssa.BasicBlock{}
 			for _, s := range H.Succs {
-				if scc[s] && s != A.Block() {
+				if scc[s] && s != L.Block() {
 					work = append(work, s)
 				}
 			}
@@ -816,7 +1295,7 @@ func c02R2(c *eng.Ctx, filter, cl *ssa.Function) {
 				}
 				seen[x] = true
 				for _, s := range x.Succs {
-					if scc[s] && s != A.Block() {
+					if scc[s] && s != L.Block() {
 						work = append(work, s)
 					}
 				}
@@ -825,29 +1304,46 @@ func c02R2(c *eng.Ctx, filter, cl *ssa.Function) {
 		c.Check("R2", cl, "every requested identity passes Authorize", A.Pos(), why == "", "each element of the impersonation request list must be authorised in its own iteration"+c02Found(why))
 	}
 
-	// (2b) staying in the loop implies err == nil and decision == Allow
+	// (2b) staying in the loop implies err == nil and decision == Allow. The facts of an edge are
+	// those its condition implies, through named conditions (`allowed := err == nil && …`), De
+	// Morgan forms, and the ok flag / error result of a helper that wraps the Authorize call.
 	{
 		atHeader := func(ins ssa.Instruction) bool { return ins.Block() == H && ins == H.Instrs[0] }
 		cut := func(match func(eng.Rel) bool) func(from *ssa.BasicBlock, si int) bool {
+			memo := map[[2]int]bool{}
 			return func(from *ssa.BasicBlock, si int) bool {
 				iff, ok := from.Instrs[len(from.Instrs)-1].(*ssa.If)
 				if !ok || !scc[from] {
 					return false
 				}
-				return match(eng.RelOf(iff.Cond, si == 0))
+				k := [2]int{from.Index, si}
+				if r, seen := memo[k]; seen {
+					return r
+				}
+				res := match(eng.RelOf(iff.Cond, si == 0))
+				if !res {
+					for _, f := range eng.EdgeFactsDeep(from, si) {
+						if match(eng.Rel{Op: f.Rel.Op, X: f.X(), Y: f.Y()}) {
+							res = true
+							break
+						}
+					}
+				}
+				memo[k] = res
+				return res
 			}
 		}
 		errNil := func(r eng.Rel) bool {
-			return r.Op == token.EQL && ((errV(r.X) && eng.IsNilConst(r.Y)) || (errV(r.Y) && eng.IsNilConst(r.X)))
+			return r.Op == token.EQL && ((eng.IsNilConst(r.Y) && errV(r.X)) || (eng.IsNilConst(r.X) && errV(r.Y)))
 		}
 		isAllow := func(v ssa.Value) bool { k, ok := eng.IntConst(v); return ok && okAllow && k == allow }
 		decAllow := func(r eng.Rel) bool {
-			return r.Op == token.EQL && ((decV(r.X) && isAllow(r.Y)) || (decV(r.Y) && isAllow(r.X)))
+			return r.Op == token.EQL && ((isAllow(r.Y) && decV(r.X)) || (isAllow(r.X) && decV(r.Y)))
 		}
-		avoidA := func(ins ssa.Instruction) bool { return ins == ssa.Instruction(A) }
-		x1 := eng.ReachAfter(A, eng.PathQuery{Target: atHeader, Avoid: avoidA, BlockEdge: cut(errNil)})
+		avoidL := func(ins ssa.Instruction) bool { return ins == L }
+		x1 := eng.ReachAfter(L, eng.PathQuery{Target: atHeader, Avoid: avoidL, BlockEdge: cut(errNil)})
 		c.Check("R2", cl, "next element only if Authorize returned no error", A.Pos(), x1 == nil, "the loop may continue only through the err == nil edge of this Authorize call; otherwise an authorizer outage lets the impersonation through")
-		x2 := eng.ReachAfter(A, eng.PathQuery{Target: atHeader, Avoid: avoidA, BlockEdge: cut(decAllow)})
+		x2 := eng.ReachAfter(L, eng.PathQuery{Target: atHeader, Avoid: avoidL, BlockEdge: cut(decAllow)})
 		c.Check("R2", cl, "next element only if decision == DecisionAllow", A.Pos(), x2 == nil, "the loop may continue only through the decision == DecisionAllow edge (equality with that constant: NoOpinion is refused); e.g. testing decision == DecisionDeny as the refusal lets NoOpinion impersonate")
 	}
 
@@ -871,34 +1367,43 @@ func c02R2(c *eng.Ctx, filter, cl *ssa.Function) {
 
 	// (2d) what is authorised: this element, as the authenticated user, for this request's cluster
 	{
-		var rec ssa.Value
+		isAttrs := func(v ssa.Value) bool {
+			a, ok := v.(*ssa.Alloc)
+			return ok && eng.TypeName(a.Type().(*types.Pointer).Elem()) == c02TAttrs
+		}
+		recs := map[ssa.Value]bool{}
 		if a := eng.Args(A); len(a) == 2 {
-			if mi, ok := a[1].(*ssa.MakeInterface); ok {
-				rec = mi.X
+			for _, l := range c02LeavesUpStop(c, a[1], isAttrs) {
+				if isAttrs(l) {
+					recs[l] = true
+				}
 			}
 			c.Check("R2", cl, "Authorize(ctx of this request)", A.Pos(), isReqCtx(a[0]), "the authorizer finds the target cluster in the request's context (ExtraRequestInfo); another context asks another cluster")
 		}
 		stores := map[string][]*ssa.Store{}
-		if rec != nil {
-			for _, f := range []string{"User", "Verb", "Name"} {
-				for _, st := range eng.StoresToField([]*ssa.Function{cl}, c02TAttrs, f) {
-					if st.Addr.(*ssa.FieldAddr).X == rec {
+		for _, f := range []string{"User", "Verb", "Name"} {
+			for _, st := range eng.StoresToField(region, c02TAttrs, f) {
+				for _, b := range c.W.UpVals(st.Addr.(*ssa.FieldAddr).X) {
+					if recs[b] {
 						stores[f] = append(stores[f], st)
+						break
 					}
 				}
 			}
 		}
 		okUser := len(stores["User"]) > 0
 		for _, st := range stores["User"] {
-			cc, i := eng.CallResultOf(st.Val)
-			if cc == nil || i != 0 || !eng.IsCall(cc, c02UserFrom) || !isReqCtx(cc.Call.Args[0]) {
+			if !allUp(st.Val, func(x ssa.Value) bool {
+				cc, i := eng.CallResultOf(x)
+				return cc != nil && i == 0 && eng.IsCall(cc, c02UserFrom) && isReqCtx(cc.Call.Args[0])
+			}) {
 				okUser = false
 			}
 		}
 		c.Check("R2", cl, "attributes.User = authenticated user", A.Pos(), okUser, "the permission to impersonate is checked for request.UserFrom(req.Context()), the identity WithAuthentication established")
 		okVerb := len(stores["Verb"]) > 0
 		for _, st := range stores["Verb"] {
-			if s, ok := eng.StringConst(st.Val); !ok || s != "impersonate" {
+			if !allUp(st.Val, func(x ssa.Value) bool { s, ok := eng.StringConst(x); return ok && s == "impersonate" }) {
 				okVerb = false
 			}
 		}
@@ -927,33 +1432,81 @@ func c02R2(c *eng.Ctx, filter, cl *ssa.Function) {
 	if len(withUsers) == 0 {
 		c.Fail("R2", cl, "WithUser only after the authorisation loop", cl.Pos(), "the filter never installs the impersonated user")
 	}
+	isInfo := func(v ssa.Value) bool {
+		a, ok := v.(*ssa.Alloc)
+		return ok && eng.TypeName(a.Type().(*types.Pointer).Elem()) == c02TDefaultInfo
+	}
 	for k, wu := range withUsers {
 		why := ""
+		// where the swap stands relative to the loop: judged in the function that holds the loop
+		// when the swap runs as part of it, otherwise in the handler relative to the call S of
+		// the function holding the loop
+		pos := wu.site
+		if LF != cl && c.W.OwnedBy(wu.call.Parent(), LF) {
+			if ls := c.W.SitesUp(LF, wu.call); len(ls) == 1 && ls[0].Parent() == LF {
+				pos = ls[0]
+			}
+		}
+		afterLoop := ""
 		switch {
-		case scc[wu.Block()]:
-			why = "WithUser inside the authorisation loop"
-		case !H.Dominates(wu.Block()):
-			why = "WithUser reachable without entering the authorisation loop"
-		case !eng.GuardedBy(wu, func(r eng.Rel) bool {
+		case pos.Parent() == LF:
+			if scc[pos.Block()] {
+				afterLoop = "WithUser inside the authorisation loop"
+			} else if !H.Dominates(pos.Block()) {
+				afterLoop = "WithUser reachable without entering the authorisation loop"
+			}
+		case S != nil && pos.Parent() == cl:
+			isS := func(i ssa.Instruction) bool { return i == S }
+			if !eng.AlwaysBefore(cl, pos, isS) {
+				afterLoop = "WithUser reachable without entering the authorisation loop"
+				break
+			}
+			// not after a return of the loop's function that did not go through the loop
+			eng.Instrs(LF, func(ins ssa.Instruction) {
+				r, isRet := ins.(*ssa.Return)
+				if !isRet || r.Block() == LF.Recover || H.Dominates(r.Block()) {
+					return
+				}
+				if call, isCall := S.(*ssa.Call); isCall {
+					if eng.FactReachAfter(S, eng.FactQuery{Assume: eng.ReturnAssumptions(call, r),
+						Target: func(i ssa.Instruction, _ eng.KnownFn) bool { return i == pos }}) != nil {
+						afterLoop = "WithUser reachable without entering the authorisation loop"
+					}
+				}
+			})
+		default:
+			afterLoop = "WithUser runs in " + eng.FuncName(pos.Parent()) + ", whose callers are not all in the filter's handler"
+		}
+		switch {
+		case afterLoop != "":
+			why = afterLoop
+		case !eng.GuardedBy(wu.site, func(r eng.Rel) bool {
+			r = eng.NormRel(r)
 			ln := c02IsBuiltin(r.X, "len")
 			z, isZ := eng.IntConst(r.Y)
-			return ln != nil && isReqs(ln.Call.Args[0]) && isZ && z == 0 && (r.Op == token.NEQ || r.Op == token.GTR)
+			return ln != nil && allUp(ln.Call.Args[0], isReqs) && isZ && z == 0 && (r.Op == token.NEQ || r.Op == token.GTR)
 		}):
 			why = "WithUser not guarded by len(requests) != 0 (an empty loop would install an empty user)"
-		case !isReqCtx(eng.Args(wu)[0]):
+		case !isReqCtx(eng.Args(wu.call)[0]):
 			why = "the new user is attached to a context that is not this request's"
 		}
-		c.Check("R2", cl, fmt.Sprintf("WithUser#%d only after the authorisation loop", k+1), wu.Pos(), why == "", "the identity is replaced only when every requested element was authorised"+c02Found(why))
+		c.Check("R2", cl, fmt.Sprintf("WithUser#%d only after the authorisation loop", k+1), wu.call.Pos(), why == "", "the identity is replaced only when every requested element was authorised"+c02Found(why))
 
 		// (2f) the new identity consists of authorised elements only
-		var info ssa.Value
-		if mi, ok := eng.Args(wu)[1].(*ssa.MakeInterface); ok {
-			info = mi.X
+		infos := map[ssa.Value]bool{}
+		for _, l := range c02LeavesUpStop(c, eng.Args(wu.call)[1], isInfo) {
+			if isInfo(l) {
+				infos[l] = true
+			}
 		}
 		for _, f := range []string{"Name", "Groups", "Extra"} {
 			n, bad := 0, ""
-			for _, st := range eng.StoresToField([]*ssa.Function{cl}, c02TDefaultInfo, f) {
-				if info == nil || st.Addr.(*ssa.FieldAddr).X != info {
+			for _, st := range eng.StoresToField(region, c02TDefaultInfo, f) {
+				mine := false
+				for _, b := range c.W.UpVals(st.Addr.(*ssa.FieldAddr).X) {
+					mine = mine || infos[b]
+				}
+				if !mine {
 					continue
 				}
 				n++
@@ -967,42 +1520,46 @@ func c02R2(c *eng.Ctx, filter, cl *ssa.Function) {
 			if n == 0 {
 				bad = "field never set"
 			}
-			c.Check("R2", cl, fmt.Sprintf("WithUser#%d new user.%s from authorised elements only", k+1, f), wu.Pos(), bad == "", "the impersonated identity must be assembled from the elements that went through the loop (and constants), never from the raw request or the requestor"+c02Found(bad))
+			c.Check("R2", cl, fmt.Sprintf("WithUser#%d new user.%s from authorised elements only", k+1, f), wu.call.Pos(), bad == "", "the impersonated identity must be assembled from the elements that went through the loop (and constants), never from the raw request or the requestor"+c02Found(bad))
 		}
 	}
 }
 
-// c02LeavesThroughMaps returns the leaves of v's slice (through call operands), following
-// what is stored into maps made in the function (m[k] = x) as well.
+// c02LeavesThroughMaps returns the leaves of v's slice with data dependence through calls
+// that are not followed into their callee (their operands stand for them), through the
+// results of same-repository helpers (what they return, in the context of the call), through
+// parameters of extracted helpers (what the call sites pass) and through maps made on the way
+// (what is stored into them: m[k] = x).
 func c02LeavesThroughMaps(c *eng.Ctx, v ssa.Value, stop func(ssa.Value) bool) []ssa.Value {
-	sl := c.Slicer().WithArgs()
+	type key struct {
+		v  ssa.Value
+		fr *eng.DFrame
+	}
 	var out []ssa.Value
-	seen := map[ssa.Value]bool{}
-	var visit func(v ssa.Value)
-	visit = func(v ssa.Value) {
-		for _, l := range sl.Leaves(v, stop) {
-			if seen[l] {
+	seen := map[key]bool{}
+	listed := map[ssa.Value]bool{}
+	var visit func(v ssa.Value, fr *eng.DFrame)
+	visit = func(v ssa.Value, fr *eng.DFrame) {
+		for _, l := range c.W.CtxLeavesArgs(v, fr, stop, c.Depth+1, true) {
+			if seen[key{l.V, l.Fr}] {
 				continue
 			}
-			seen[l] = true
-			out = append(out, l)
-			if cc, ok := l.(*ssa.Call); ok && (stop == nil || !stop(l)) {
-				// a call that received the address of a sliced cell (possible writer): what it was given
-				for _, a := range cc.Call.Args {
-					visit(a)
-				}
+			seen[key{l.V, l.Fr}] = true
+			if !listed[l.V] {
+				listed[l.V] = true
+				out = append(out, l.V)
 			}
-			if mm, ok := l.(*ssa.MakeMap); ok && mm.Referrers() != nil {
+			if mm, ok := l.V.(*ssa.MakeMap); ok && mm.Referrers() != nil && (stop == nil || !stop(l.V)) {
 				for _, r := range *mm.Referrers() {
 					if mu, ok := r.(*ssa.MapUpdate); ok && mu.Map == ssa.Value(mm) {
-						visit(mu.Key)
-						visit(mu.Value)
+						visit(mu.Key, l.Fr)
+						visit(mu.Value, l.Fr)
 					}
 				}
 			}
 		}
 	}
-	visit(v)
+	visit(v, nil)
 	return out
 }
 
@@ -1027,143 +1584,71 @@ func c02Describe(v ssa.Value) string {
 // ---------------------------------------------------------------------------------------
 // R3 outbound impersonation headers
 
-func c02R3(c *eng.Ctx) {
+func c02R3(c *eng.Ctx) (escapers []*ssa.Function) {
 	wr := c.MustMethod(pkgTransport, "dynamicImpersonatingRoundTripper", "WrapRequest")
 	if wr != nil && len(wr.Params) == 2 {
 		req := ssa.Value(wr.Params[1])
-		// the context user of the request being sent
-		var users []*ssa.Call
-		for _, ci := range eng.CallsTo(wr, c02UserFrom) {
-			cc := ci.(*ssa.Call)
-			ctx, _ := eng.CallResultOf(cc.Call.Args[0])
-			if ctx != nil && eng.IsCall(ctx, c02ReqContext) {
-				if r := c02CtxRoots(ctx.Call.Args[0]); len(r) == 1 && r[req] {
-					users = append(users, cc)
-				}
-			}
-		}
-		isUser := func(v ssa.Value) bool {
-			cc, i := eng.CallResultOf(v)
-			if cc == nil || i != 0 {
-				return false
-			}
-			for _, u := range users {
-				if cc == u {
-					return true
-				}
-			}
-			return false
-		}
-		// getter(v, name): every origin of v is <context user>.name()
-		getter := func(v ssa.Value, name string) string {
-			ls := c.Slicer().Leaves(v, nil)
-			if len(ls) == 0 {
-				return "value of unknown origin"
-			}
-			for _, l := range ls {
-				cc, _ := eng.CallResultOf(l)
-				if cc == nil || !cc.Call.IsInvoke() || cc.Call.Method.Name() != name || eng.TypeName(cc.Call.Value.Type()) != "k8s.io/apiserver/pkg/authentication/user.Info" || !isUser(cc.Call.Value) {
-					return "value comes from " + c02Describe(l) + ", not from " + name + "() of request.UserFrom(req.Context())"
-				}
-			}
-			return ""
-		}
-		isClone := func(v ssa.Value) bool {
-			cc, _ := eng.CallResultOf(v)
-			return cc != nil && (eng.IsCall(cc, "k8s.io/apimachinery/pkg/util/net.CloneRequest") || eng.IsCall(cc, "(*net/http.Request).Clone")) && c02Roots(cc.Call.Args[0])[req]
-		}
-		onClone := func(h ssa.Value) bool {
-			r := c02Roots(h)
-			if len(r) == 0 {
-				return false
-			}
-			for x := range r {
-				if !isClone(x) {
+		// the body of WrapRequest may be spread over helpers (the header writes behind a
+		// "set the impersonation headers" function): constructs are looked up in the Region and the
+		// helper's values are related to WrapRequest's through the helper's call sites
+		region := c.W.Region(wr)
+		allUp := func(v ssa.Value, pred func(ssa.Value) bool) bool {
+			vs := c.W.UpVals(v)
+			for _, x := range vs {
+				if !pred(x) {
 					return false
 				}
 			}
-			return true
+			return len(vs) > 0
 		}
-		anyGetter := func(v ssa.Value) string {
-			ls := c.Slicer().Leaves(v, nil)
-			if len(ls) == 0 {
-				return "value of unknown origin"
-			}
-			for _, l := range ls {
-				cc, _ := eng.CallResultOf(l)
-				if cc == nil || !cc.Call.IsInvoke() || !isUser(cc.Call.Value) {
-					return "value comes from " + c02Describe(l) + ", not from the context user"
+		// the context user of the request being sent
+		users := map[*ssa.Call]bool{}
+		for _, fn := range region {
+			for _, ci := range eng.CallsTo(fn, c02UserFrom) {
+				cc := ci.(*ssa.Call)
+				if allUp(cc.Call.Args[0], func(x ssa.Value) bool {
+					ctx, _ := eng.CallResultOf(x)
+					if ctx == nil || !eng.IsCall(ctx, c02ReqContext) {
+						return false
+					}
+					r := c02CtxRootsUp(c.W, ctx.Call.Args[0])
+					return len(r) == 1 && r[req]
+				}) {
+					users[cc] = true
 				}
 			}
-			return ""
+		}
+		isUserRes := func(x ssa.Value) bool {
+			cc, i := eng.CallResultOf(x)
+			return cc != nil && i == 0 && users[cc]
 		}
 		seen := map[string]int{}
-		for _, ci := range eng.Calls(wr) {
-			if !eng.IsCall(ci, "(net/http.Header).Set", "(net/http.Header).Add") {
-				continue
-			}
-			a := eng.Args(ci)
-			verb := eng.CalleeObj(ci).Name()
-			why := ""
-			undecided := false
-			var what string
-			key, isConst := eng.StringConst(a[0])
-			switch {
-			case isConst && key == "Impersonate-User":
-				what = "Impersonate-User"
-				why = getter(a[1], "GetName")
-				if verb != "Set" {
-					why = "Impersonate-User must be Set (replace), not added"
+		atWr := func(f *ssa.Function) bool { return f == wr }
+		for _, fn := range region {
+			// a helper shared by several writes (`addAll(header, name, values)`) writes a different
+			// header in each calling context: every write is judged once per context, with the
+			// helper's parameters bound to what that context passes
+			chains := c.W.UpChains(fn, atWr)
+			for _, ci := range eng.Calls(fn) {
+				if !eng.IsCall(ci, "(net/http.Header).Set", "(net/http.Header).Add") {
+					continue
 				}
-			case isConst && key == "Impersonate-Group":
-				what = "Impersonate-Group"
-				why = getter(a[1], "GetGroups")
-			case isConst && strings.HasPrefix(strings.ToLower(key), "impersonate-"):
-				// another member of the family (e.g. Impersonate-Uid): only from the context user
-				what = key
-				why = anyGetter(a[1])
-			case isConst && strings.EqualFold(key, "Authorization"):
-				what = key
-				why = "the impersonating round tripper must not write credentials"
-			case isConst:
-				continue // a header that carries no identity
-			default:
-				what = "Impersonate-Extra-*"
-				add, ok := a[0].(*ssa.BinOp)
-				var esc *ssa.Call
-				if ok && add.Op == token.ADD {
-					if p, isP := eng.StringConst(add.X); isP && p == "Impersonate-Extra-" {
-						esc, _ = eng.CallResultOf(add.Y)
+				for _, ch := range chains {
+					what, why, undecided, escs := c02HeaderWrite(c, ci, ch, req, isUserRes)
+					if what == "" {
+						continue // a header that carries no identity
 					}
-				}
-				switch {
-				case esc == nil || !eng.IsCall(esc, pkgTransport+".headerKeyEscape"):
-					what = "computed header"
-					undecided = true
-					why = "header key is not a constant and not \"Impersonate-Extra-\"+headerKeyEscape(k): cannot tell what is written"
-				default:
-					if why = getter(esc.Call.Args[0], "GetExtra"); why == "" {
-						why = getter(a[1], "GetExtra")
+					escapers = append(escapers, escs...)
+					verb := eng.CalleeObj(ci).Name()
+					seen[what]++
+					construct := fmt.Sprintf("%s %s#%d from the context user, on a clone", verb, what, seen[what])
+					if undecided {
+						c.Undecided("R3", wr, construct, ci.Pos(), why)
+						continue
 					}
+					c.Check("R3", wr, construct, ci.Pos(), why == "", "generated impersonation headers carry exactly the context user's name/groups/extra"+c02Found(why))
 				}
 			}
-			if why == "" && !onClone(eng.Receiver(ci)) {
-				why = "the header written is not the header of a clone of the request (RoundTrippers must not mutate the caller's request, and the client's map would be shared)"
-			}
-			// a write executed once per value of a multi-valued attribute must accumulate: Set with
-			// a key that does not change in the innermost loop keeps only the last value
-			if why == "" && verb == "Set" {
-				if l := eng.InnermostLoop(ci.Block()); l != nil && eng.LoopInvariant(a[0], l) && !eng.LoopInvariant(a[1], l) {
-					why = "Header.Set inside a loop over the attribute's values with a key that is the same on every iteration: only the last value reaches the upstream (must be Add)"
-				}
-			}
-			seen[what]++
-			construct := fmt.Sprintf("%s %s#%d from the context user, on a clone", verb, what, seen[what])
-			if undecided {
-				c.Undecided("R3", wr, construct, ci.Pos(), why)
-				continue
-			}
-			c.Check("R3", wr, construct, ci.Pos(), why == "", "generated impersonation headers carry exactly the context user's name/groups/extra"+c02Found(why))
 		}
 		for _, w := range []string{"Impersonate-User", "Impersonate-Group", "Impersonate-Extra-*"} {
 			if seen[w] == 0 {
@@ -1171,160 +1656,639 @@ func c02R3(c *eng.Ctx) {
 			}
 		}
 		// no raw map writes into a header
-		eng.Instrs(wr, func(ins ssa.Instruction) {
-			if mu, ok := ins.(*ssa.MapUpdate); ok && eng.TypeName(mu.Map.Type()) == "net/http.Header" {
-				c.Fail("R3", wr, "raw header map write", mu.Pos(), "headers must be written through Set/Add with values of the context user")
-			}
-		})
+		for _, fn := range region {
+			eng.Instrs(fn, func(ins ssa.Instruction) {
+				if mu, ok := ins.(*ssa.MapUpdate); ok && eng.TypeName(mu.Map.Type()) == "net/http.Header" {
+					c.Fail("R3", wr, "raw header map write", mu.Pos(), "headers must be written through Set/Add with values of the context user")
+				}
+			})
+		}
 	}
 	if rt := c.MustMethod(pkgTransport, "dynamicImpersonatingRoundTripper", "RoundTrip"); rt != nil && wr != nil {
 		n := 0
-		for _, ci := range eng.CallsTo(rt, "(net/http.RoundTripper).RoundTrip") {
-			n++
-			a := eng.Args(ci)
-			cc, i := eng.CallResultOf(a[0])
-			ok := cc != nil && i == 0 && cc.Call.StaticCallee() == wr && eng.FieldLoadOf(eng.Receiver(ci), c02TRoundTripper, "delegate")
-			c.Check("R3", rt, fmt.Sprintf("delegate.RoundTrip(WrapRequest(req))#%d", n), ci.Pos(), ok, "what is sent upstream is the wrapped request, not the client's")
+		isWrapped := func(v ssa.Value) bool {
+			cc, i := eng.CallResultOf(v)
+			return cc != nil && i == 0 && cc.Call.StaticCallee() == wr
+		}
+		for _, fn := range c.W.Region(rt) {
+			for _, ci := range eng.CallsTo(fn, "(net/http.RoundTripper).RoundTrip") {
+				n++
+				a := eng.Args(ci)
+				ls := c02LeavesUpStop(c, a[0], isWrapped)
+				ok := len(ls) > 0 && eng.FieldLoadOf(eng.Receiver(ci), c02TRoundTripper, "delegate")
+				for _, l := range ls {
+					if !isWrapped(l) {
+						ok = false
+					}
+				}
+				c.Check("R3", rt, fmt.Sprintf("delegate.RoundTrip(WrapRequest(req))#%d", n), ci.Pos(), ok, "what is sent upstream is the wrapped request, not the client's")
+			}
 		}
 		if n == 0 {
 			c.Fail("R3", rt, "delegate.RoundTrip(WrapRequest(req))", rt.Pos(), "RoundTrip never calls its delegate")
 		}
 	}
 
-	// wiring: both transports of an endpoint are built from the config carrying the wrapper
-	au := c.MustMethod(pkgClusters, "ClusterInfo", "addOrUpdateEndpoint")
-	ct := c.MustMethod(pkgClusters, "EndpointInfo", "createTransport")
-	rs := c.MustMethod(pkgClusters, "EndpointInfo", "ResetTransport")
+	// wiring: both transports of an endpoint are built from the config carrying the wrapper.
+	// The functions are found by what they do: the one that registers a new endpoint in its
+	// cluster's table (and everything it is spread over), the ones that store an endpoint's
+	// proxy transport and that wrap a transport with a config's wrappers.
+	au := c02EndpointAdder(c)
 	ctor := c.MustFunc(pkgTransport, "NewDynamicImpersonatingRoundTripper")
-	if au == nil || ct == nil || rs == nil || ctor == nil {
-		return
+	if au == nil || ctor == nil {
+		return escapers
 	}
-	isWrapStore := func(ins ssa.Instruction) (*ssa.Store, bool) {
-		st, ok := ins.(*ssa.Store)
-		if !ok || !eng.FieldAddrOf(st.Addr, c02TRestConfig, "WrapTransport") {
-			return nil, false
-		}
-		return st, true
-	}
-	isCtor := func(v ssa.Value) bool {
-		if ch, ok := v.(*ssa.ChangeType); ok {
-			v = ch.X
-		}
-		return v == ssa.Value(ctor)
-	}
-	var wrapCfg ssa.Value
-	var wrapStore *ssa.Store
+	auRegion := c.W.Region(au)
+	cf := &c02CfgFacts{c: c, ctor: ctor, memo: map[*ssa.Alloc]string{}, busy: map[*ssa.Alloc]bool{}, inits: map[*ssa.Alloc]ssa.Instruction{}}
 	nWrap := 0
 	for _, fn := range c.W.FuncsOf(pkgClusters) {
 		eng.Instrs(fn, func(ins ssa.Instruction) {
-			st, ok := isWrapStore(ins)
-			if !ok {
+			st, ok := ins.(*ssa.Store)
+			if !ok || !eng.FieldAddrOf(st.Addr, c02TRestConfig, "WrapTransport") {
 				return
 			}
 			nWrap++
-			good := fn == au && isCtor(st.Val)
-			if good {
-				wrapCfg = st.Addr.(*ssa.FieldAddr).X
-				wrapStore = st
+			owned := c.W.OwnedBy(fn, au)
+			at := fn
+			if owned {
+				at = au
 			}
-			c.Check("R3", fn, fmt.Sprintf("WrapTransport = NewDynamicImpersonatingRoundTripper#%d", nWrap), st.Pos(), good, "the only wrapper installed on an endpoint's config is the impersonating round tripper")
+			c.Check("R3", at, fmt.Sprintf("WrapTransport = NewDynamicImpersonatingRoundTripper#%d", nWrap), st.Pos(), owned && cf.isCtor(st.Val), "the only wrapper installed on an endpoint's config is the impersonating round tripper")
 		})
 	}
-	if nWrap == 0 || wrapCfg == nil {
+	if nWrap == 0 {
 		c.Fail("R3", au, "WrapTransport = NewDynamicImpersonatingRoundTripper", au.Pos(), "the impersonating wrapper is not installed on the endpoint's config")
-		return
+		return escapers
 	}
-	afterWrap := func(ins ssa.Instruction) bool {
-		return eng.AlwaysBefore(au, ins, func(i ssa.Instruction) bool { return i == ssa.Instruction(wrapStore) })
-	}
-	// upgrade transport: TransportFor(&copy) where copy := wrapCfg's value taken after the store
+	// upgrade transport: TransportFor(cfg) where cfg carries the wrapper when it is handed over
 	{
 		n := 0
-		var upgradeRT *ssa.Call
-		for _, ci := range eng.CallsTo(au, "k8s.io/client-go/rest.TransportFor") {
-			n++
-			why := "TransportFor argument is not a local copy of the wrapped config"
-			if cfg, ok := eng.Args(ci)[0].(*ssa.Alloc); ok {
-				why = ""
-				if cfg != wrapCfg {
-					why = c02CopyAfter(cfg, wrapCfg, afterWrap)
-				} else if !afterWrap(ci) {
-					why = "TransportFor runs before the wrapper is stored"
+		goodTF := map[*ssa.Call]bool{}
+		for _, fn := range auRegion {
+			for _, ci := range eng.CallsTo(fn, "k8s.io/client-go/rest.TransportFor") {
+				n++
+				why := cf.allWrapped(eng.Args(ci)[0], "TransportFor argument")
+				if call, isCall := ci.(*ssa.Call); isCall && why == "" {
+					goodTF[call] = true
 				}
-				why2 := ""
-				for _, r := range *cfg.Referrers() {
-					if fa, ok := r.(*ssa.FieldAddr); ok {
-						if _, isW := c02StoreTo(fa); isW && eng.FieldAddrOf(fa, c02TRestConfig, "WrapTransport") {
-							if fa.X != wrapCfg {
-								why2 = "WrapTransport of the copy is overwritten"
-							}
-						}
-					}
-				}
-				if why == "" {
-					why = why2
-				}
+				c.Check("R3", au, fmt.Sprintf("upgrade transport built from the wrapped config#%d", n), ci.Pos(), why == "", "rest.TransportFor must see WrapTransport = impersonating wrapper (copy taken after the store)"+c02Found(why))
 			}
-			if why == "" {
-				upgradeRT = ci.(*ssa.Call)
-			}
-			c.Check("R3", au, fmt.Sprintf("upgrade transport built from the wrapped config#%d", n), ci.Pos(), why == "", "rest.TransportFor must see WrapTransport = impersonating wrapper (copy taken after the store)"+c02Found(why))
 		}
 		if n == 0 {
 			c.Fail("R3", au, "upgrade transport built from the wrapped config", au.Pos(), "no rest.TransportFor call")
 		}
-		sts := eng.StoresToField([]*ssa.Function{au}, tEndpointInfo, "PorxyUpgradeTransport")
-		ok := len(sts) > 0 && upgradeRT != nil
+		sts := eng.StoresToField(auRegion, tEndpointInfo, "PorxyUpgradeTransport")
+		ok := len(sts) > 0 && len(goodTF) > 0
 		for _, st := range sts {
-			if !c.Slicer().WithArgs().DerivesFrom(st.Val, func(v ssa.Value) bool { cc, i := eng.CallResultOf(v); return cc == upgradeRT && i == 0 }) {
+			if !c.Slicer().WithArgs().WithUp().DerivesFrom(st.Val, func(v ssa.Value) bool { cc, i := eng.CallResultOf(v); return cc != nil && goodTF[cc] && i == 0 }) {
 				ok = false
 			}
 		}
 		c.Check("R3", au, "PorxyUpgradeTransport = that transport", au.Pos(), ok, "the upgrade round tripper handed to the dispatcher derives from the transport built above")
 	}
-	// http2 transport: proxyConfig = &wrapCfg ; createTransport wraps with HTTPWrappersForConfig(e.proxyConfig, ts)
+	// http2 transport: proxyConfig = the wrapped config; the proxy transport is HTTPWrappersForConfig(own proxyConfig, ts)
 	{
 		sts := eng.StoresToField(c.W.FuncsOf(pkgClusters), tEndpointInfo, "proxyConfig")
-		ok := len(sts) > 0
+		ok, why := len(sts) > 0, ""
 		for _, st := range sts {
-			if st.Parent() != au || st.Val != wrapCfg {
-				ok = false
+			if !c.W.OwnedBy(st.Parent(), au) {
+				ok, why = false, "proxyConfig is also written in "+eng.FuncName(st.Parent())
+				continue
+			}
+			if w := cf.allWrapped(st.Val, "proxyConfig"); w != "" {
+				ok, why = false, w
 			}
 		}
-		c.Check("R3", au, "EndpointInfo.proxyConfig = the wrapped config", au.Pos(), ok, "proxyConfig must be the config whose WrapTransport is the impersonating wrapper")
-		n := 0
-		var wrapped *ssa.Call
-		for _, ci := range eng.CallsTo(ct, "k8s.io/client-go/rest.HTTPWrappersForConfig") {
-			n++
-			a := eng.Args(ci)
-			good := eng.FieldLoadOf(a[0], tEndpointInfo, "proxyConfig") && c02FieldBase(a[0]) == ssa.Value(ct.Params[0])
-			if good {
-				wrapped = ci.(*ssa.Call)
+		c.Check("R3", au, "EndpointInfo.proxyConfig = the wrapped config", au.Pos(), ok, "proxyConfig must be the config whose WrapTransport is the impersonating wrapper"+c02Found(why))
+
+		isWrapResult := func(v ssa.Value) bool {
+			cc, i := eng.CallResultOf(v)
+			return cc != nil && i == 0 && eng.IsCall(cc, "k8s.io/client-go/rest.HTTPWrappersForConfig")
+		}
+		// ownConfig: the config argument of wrapper call h (entered through fr) is the proxyConfig field of
+		// endpoint `of` (nil: of whatever endpoint the enclosing function works on — a receiver or parameter)
+		ownConfig := func(h *ssa.Call, fr *eng.DFrame, of *eng.CtxVal) bool {
+			cfg := c.W.ResolveCtx(eng.Args(h)[0], fr, true)
+			if !eng.FieldLoadOf(cfg.V, tEndpointInfo, "proxyConfig") {
+				return false
 			}
-			c.Check("R3", ct, fmt.Sprintf("HTTPWrappersForConfig(e.proxyConfig, …)#%d", n), ci.Pos(), good, "the proxy transport is wrapped according to the endpoint's own (wrapped) config")
+			base := c.W.ResolveCtx(c02FieldBase(cfg.V), cfg.Fr, true)
+			if of != nil {
+				return base.V == of.V
+			}
+			_, isParam := base.V.(*ssa.Parameter)
+			return isParam
+		}
+		n := 0
+		ord := map[*ssa.Function]int{}
+		for _, fn := range c.W.FuncsOf(pkgClusters) {
+			for _, ci := range eng.CallsTo(fn, "k8s.io/client-go/rest.HTTPWrappersForConfig") {
+				h, isCall := ci.(*ssa.Call)
+				if !isCall {
+					continue
+				}
+				n++
+				ord[fn]++
+				// in every calling context the config is an endpoint's own proxyConfig
+				good := true
+				for _, u := range c.W.UpVals(eng.Args(h)[0]) {
+					if !eng.FieldLoadOf(u, tEndpointInfo, "proxyConfig") {
+						good = false
+					}
+				}
+				good = good && ownConfig(h, nil, nil)
+				c.Check("R3", fn, fmt.Sprintf("HTTPWrappersForConfig(e.proxyConfig, …)#%d", ord[fn]), ci.Pos(), good, "the proxy transport is wrapped according to the endpoint's own (wrapped) config")
+			}
 		}
 		if n == 0 {
-			c.Fail("R3", ct, "HTTPWrappersForConfig(e.proxyConfig, …)", ct.Pos(), "the proxy transport is not wrapped with the config's wrappers (no credential, no impersonation)")
+			c.Fail("R3", au, "HTTPWrappersForConfig(e.proxyConfig, …)", au.Pos(), "the proxy transport is not wrapped with the config's wrappers (no credential, no impersonation)")
 		}
-		okRet := false
-		eng.Instrs(ct, func(ins ssa.Instruction) {
-			r, isRet := ins.(*ssa.Return)
-			if !isRet || len(r.Results) != 4 || eng.IsNilConst(r.Results[1]) {
-				return
-			}
-			cc, i := eng.CallResultOf(r.Results[1])
-			okRet = wrapped != nil && cc == wrapped && i == 0
-		})
 		psts := eng.StoresToField(c.W.FuncsOf(pkgClusters), tEndpointInfo, "ProxyTransport")
-		okSt := len(psts) > 0
+		if len(psts) == 0 {
+			c.Fail("R3", au, "ProxyTransport = createTransport()'s wrapped transport", au.Pos(), "the endpoint's proxy transport is never set")
+		}
+		pord := map[*ssa.Function]int{}
 		for _, st := range psts {
-			cc, i := eng.CallResultOf(st.Val)
-			if st.Parent() != rs || cc == nil || i != 1 || cc.Call.StaticCallee() != ct || eng.Receiver(cc) != st.Addr.(*ssa.FieldAddr).X {
-				okSt = false
+			fn := st.Parent()
+			pord[fn]++
+			of := c.W.ResolveCtx(st.Addr.(*ssa.FieldAddr).X, nil, true)
+			ls := c.W.CtxLeaves(st.Val, nil, isWrapResult, eng.LiftDepth, true)
+			okSt, nWrapped := true, 0
+			for _, l := range ls {
+				if eng.IsNilConst(l.V) {
+					continue // the failure return of the builder: no transport at all
+				}
+				h, _ := eng.CallResultOf(l.V)
+				if !isWrapResult(l.V) || !ownConfig(h, l.Fr, &of) {
+					okSt = false
+					continue
+				}
+				nWrapped++
+			}
+			okSt = okSt && nWrapped > 0
+			construct := "ProxyTransport = createTransport()'s wrapped transport"
+			if pord[fn] > 1 {
+				construct += fmt.Sprintf("#%d", pord[fn])
+			}
+			c.Check("R3", fn, construct, fn.Pos(), okSt, "the round tripper the dispatcher forwards through is the one wrapped with the endpoint's config")
+		}
+	}
+	return escapers
+}
+
+// c02HeaderWrite classifies one Header.Set/Add of WrapRequest's Region in calling context ch
+// (the chain of call sites from the writing helper up to WrapRequest): what identity header it
+// writes ("" = none), why it is wrong ("" = fine), whether the shape could not be classified,
+// and the escapers applied to extra keys. req is WrapRequest's request parameter, isUserRes
+// recognises the result of request.UserFrom(req.Context()).
+func c02HeaderWrite(c *eng.Ctx, ci ssa.CallInstruction, ch eng.UpChain, req ssa.Value, isUserRes func(ssa.Value) bool) (what, why string, undecided bool, escapers []*ssa.Function) {
+	sl := c.Slicer()
+	a := eng.Args(ci)
+	verb := eng.CalleeObj(ci).Name()
+	strip := func(v ssa.Value) ssa.Value {
+		for i := 0; i < 8; i++ {
+			v = ch.Resolve(v)
+			if ct, ok := v.(*ssa.ChangeType); ok {
+				v = ct.X
+				continue
+			}
+			break
+		}
+		return v
+	}
+	// the value is what UserFrom returned for this request: directly, or handed back by a
+	// helper that looks the user up (whose other returns yield no user at all)
+	isUser := func(v ssa.Value) bool {
+		n := 0
+		for _, l := range ch.Leaves(sl, v, isUserRes) {
+			switch {
+			case isUserRes(l):
+				n++
+			case eng.IsNilConst(l):
+			default:
+				return false
 			}
 		}
-		c.Check("R3", rs, "ProxyTransport = createTransport()'s wrapped transport", rs.Pos(), okRet && okSt, "the round tripper the dispatcher forwards through is the one wrapped with the endpoint's config")
+		return n > 0
 	}
+	// getter(v, name): every origin of v is <context user>.name() ("" = any getter)
+	getter := func(v ssa.Value, name string) string {
+		ls := ch.Leaves(sl, v, nil)
+		if len(ls) == 0 {
+			return "value of unknown origin"
+		}
+		for _, l := range ls {
+			cc, _ := eng.CallResultOf(l)
+			fromUser := cc != nil && cc.Call.IsInvoke() && isUser(cc.Call.Value)
+			if fromUser && (name == "" || (cc.Call.Method.Name() == name && eng.TypeName(cc.Call.Value.Type()) == "k8s.io/apiserver/pkg/authentication/user.Info")) {
+				continue
+			}
+			if name == "" {
+				return "value comes from " + c02Describe(l) + ", not from the context user"
+			}
+			return "value comes from " + c02Describe(l) + ", not from " + name + "() of request.UserFrom(req.Context())"
+		}
+		return ""
+	}
+	var rootsIn func(v ssa.Value, depth int) map[ssa.Value]bool
+	rootsIn = func(v ssa.Value, depth int) map[ssa.Value]bool {
+		out := map[ssa.Value]bool{}
+		for r := range c02Roots(v) {
+			if b := ch.Resolve(r); b != r && depth > 0 {
+				for x := range rootsIn(b, depth-1) {
+					out[x] = true
+				}
+				continue
+			}
+			out[r] = true
+		}
+		return out
+	}
+	onClone := func(h ssa.Value) bool {
+		r := rootsIn(h, eng.LiftDepth+1)
+		for x := range r {
+			cc, _ := eng.CallResultOf(x)
+			if cc == nil || !(eng.IsCall(cc, "k8s.io/apimachinery/pkg/util/net.CloneRequest") || eng.IsCall(cc, "(*net/http.Request).Clone")) || !rootsIn(cc.Call.Args[0], eng.LiftDepth+1)[req] {
+				return false
+			}
+		}
+		return len(r) > 0
+	}
+	// extraKey decides a computed header name: "Impersonate-Extra-" + escape(k), written in
+	// place, hoisted into a local, handed to a helper as a parameter or produced by a
+	// one-return naming helper. It returns the escaped operand (a value of a function on the
+	// chain) and the escaper.
+	extraKey := func(v ssa.Value) (ssa.Value, *ssa.Function, bool) {
+		cv := eng.CtxVal{V: v}
+		if cc, isCall := v.(*ssa.Call); isCall {
+			if g := cc.Call.StaticCallee(); g != nil && eng.Analysable(g) {
+				var rets []*ssa.Return
+				eng.Instrs(g, func(ins ssa.Instruction) {
+					if r, ok := ins.(*ssa.Return); ok && r.Block() != g.Recover {
+						rets = append(rets, r)
+					}
+				})
+				if len(rets) == 1 && len(rets[0].Results) == 1 {
+					cv = eng.CtxVal{V: eng.ReturnResults(rets[0])[0], Fr: &eng.DFrame{Call: cc, Callee: g}}
+				}
+			}
+		}
+		add, ok := cv.V.(*ssa.BinOp)
+		if !ok || add.Op != token.ADD {
+			return nil, nil, false
+		}
+		if p, isP := eng.StringConst(add.X); !isP || p != "Impersonate-Extra-" {
+			return nil, nil, false
+		}
+		esc, _ := eng.CallResultOf(add.Y)
+		if esc == nil {
+			return nil, nil, false
+		}
+		g := esc.Call.StaticCallee()
+		if g == nil || g.Pkg == nil || g.Pkg.Pkg.Path() != pkgTransport || len(esc.Call.Args) != 1 || g.Signature.Results().Len() != 1 ||
+			!types.Identical(g.Signature.Results().At(0).Type(), types.Typ[types.String]) || !types.Identical(esc.Call.Args[0].Type(), types.Typ[types.String]) {
+			return nil, nil, false
+		}
+		return c.W.ResolveCtx(esc.Call.Args[0], cv.Fr, false).V, g, true
+	}
+	keyV := strip(a[0])
+	key, isConst := eng.StringConst(keyV)
+	switch {
+	case isConst && key == "Impersonate-User":
+		what = "Impersonate-User"
+		why = getter(a[1], "GetName")
+		if verb != "Set" {
+			why = "Impersonate-User must be Set (replace), not added"
+		}
+	case isConst && key == "Impersonate-Group":
+		what = "Impersonate-Group"
+		why = getter(a[1], "GetGroups")
+	case isConst && strings.HasPrefix(strings.ToLower(key), "impersonate-"):
+		// another member of the family (e.g. Impersonate-Uid): only from the context user
+		what = key
+		why = getter(a[1], "")
+	case isConst && strings.EqualFold(key, "Authorization"):
+		what = key
+		why = "the impersonating round tripper must not write credentials"
+	case isConst:
+		return "", "", false, nil
+	default:
+		what = "Impersonate-Extra-*"
+		arg, esc, ok := extraKey(keyV)
+		if !ok {
+			return "computed header", "header key is not a constant and not \"Impersonate-Extra-\"+<escaper of this package>(k): cannot tell what is written", true, nil
+		}
+		escapers = append(escapers, esc)
+		if why = getter(arg, "GetExtra"); why == "" {
+			why = getter(a[1], "GetExtra")
+		}
+	}
+	if why == "" && !onClone(eng.Receiver(ci)) {
+		why = "the header written is not the header of a clone of the request (RoundTrippers must not mutate the caller's request, and the client's map would be shared)"
+	}
+	// a write executed once per value of a multi-valued attribute must accumulate: Set with a
+	// key that does not change in the loop over the values keeps only the last value. The loop
+	// may enclose the write itself or, when the write sits in a helper, the helper's call site.
+	if why == "" && verb == "Set" {
+		ins, k, v := ssa.Instruction(ci), a[0], a[1]
+		for level := 0; ; level++ {
+			if l := eng.InnermostLoop(ins.Block()); l != nil && eng.LoopInvariant(k, l) && !eng.LoopInvariant(v, l) {
+				why = "Header.Set inside a loop over the attribute's values with a key that is the same on every iteration: only the last value reaches the upstream (must be Add)"
+				break
+			}
+			if level >= len(ch) || ch[level].Fn != ins.Parent() || !ch[level].Direct {
+				break
+			}
+			vp, isVP := v.(*ssa.Parameter)
+			if !isVP {
+				break
+			}
+			if kp, isKP := k.(*ssa.Parameter); isKP {
+				k = ch[level].Bind(kp)
+			} else if _, isK := k.(*ssa.Const); !isK {
+				break
+			}
+			v = ch[level].Bind(vp)
+			ins = ch[level].Call
+			if k == nil || v == nil {
+				break
+			}
+		}
+	}
+	return what, why, false, escapers
+}
+
+// c02EndpointAdder returns the function that adds a new endpoint to a cluster:
+// (*ClusterInfo).addOrUpdateEndpoint, or — should it be renamed — the function of pkg/clusters
+// that (itself or through its helpers) registers an EndpointInfo in a ClusterInfo's Endpoints
+// table. A failure to find it is an unresolved anchor.
+func c02EndpointAdder(c *eng.Ctx) *ssa.Function {
+	if f := c.W.Method(pkgClusters, "ClusterInfo", "addOrUpdateEndpoint"); f != nil && f.Blocks != nil {
+		return f
+	}
+	cands := map[*ssa.Function]bool{}
+	for _, fn := range c.W.FuncsOf(pkgClusters) {
+		for _, ci := range eng.CallsTo(fn, "(*"+tEndpointInfoMap+").Store") {
+			if !eng.FieldLoadOf(eng.Receiver(ci), tClusterInfo, "Endpoints") {
+				continue
+			}
+			top := eng.Outermost(fn)
+			for i := 0; i < eng.LiftDepth; i++ {
+				sites := c.W.GuardSites(top)
+				if len(sites) == 0 {
+					break
+				}
+				p := eng.Outermost(sites[0].Parent())
+				same := true
+				for _, s := range sites {
+					same = same && eng.Outermost(s.Parent()) == p
+				}
+				if !same {
+					break
+				}
+				top = p
+			}
+			cands[top] = true
+		}
+	}
+	if len(cands) == 1 {
+		for f := range cands {
+			return f
+		}
+	}
+	c.Fail("engine", nil, "unresolved-anchor method ("+pkgClusters+".ClusterInfo).addOrUpdateEndpoint", token.NoPos, fmt.Sprintf("anchor method not found by name, and %d functions register endpoints in ClusterInfo.Endpoints", len(cands)))
+	return nil
+}
+
+// c02CfgFacts decides which local rest.Config objects carry the impersonating wrapper.
+type c02CfgFacts struct {
+	c     *eng.Ctx
+	ctor  *ssa.Function
+	memo  map[*ssa.Alloc]string
+	busy  map[*ssa.Alloc]bool
+	inits map[*ssa.Alloc]ssa.Instruction
+}
+
+func (f *c02CfgFacts) isCtor(v ssa.Value) bool {
+	if ch, ok := v.(*ssa.ChangeType); ok {
+		v = ch.X
+	}
+	return v == ssa.Value(f.ctor)
+}
+
+func c02IsCfgAlloc(v ssa.Value) bool {
+	a, ok := v.(*ssa.Alloc)
+	return ok && eng.TypeName(a.Type().(*types.Pointer).Elem()) == c02TRestConfig
+}
+
+// allocs returns the rest.Config objects pointer value v may denote (through tuple results of
+// helpers and helper parameters); ok=false when something else than a local object is reached.
+func (f *c02CfgFacts) allocs(v ssa.Value) ([]*ssa.Alloc, bool) {
+	var out []*ssa.Alloc
+	ls := f.c.W.CtxLeaves(v, nil, c02IsCfgAlloc, eng.LiftDepth, true)
+	for _, l := range ls {
+		a, ok := l.V.(*ssa.Alloc)
+		if !ok || !c02IsCfgAlloc(a) {
+			if eng.IsNilConst(l.V) {
+				continue // the failure return of a helper
+			}
+			return nil, false
+		}
+		out = append(out, a)
+	}
+	return out, len(out) > 0
+}
+
+// allWrapped returns "" when every config object v may denote carries the wrapper.
+func (f *c02CfgFacts) allWrapped(v ssa.Value, what string) string {
+	as, ok := f.allocs(v)
+	if !ok {
+		return what + " is not a local copy of the wrapped config"
+	}
+	for _, a := range as {
+		if w := f.wrapped(a); w != "" {
+			return w
+		}
+	}
+	return ""
+}
+
+// wrapped returns "" when config object a has WrapTransport = the impersonating wrapper at
+// every point where it is handed on (passed to a call, stored, returned, captured): it is
+// given the wrapper by exactly one store (directly or by a helper it is passed to) that is
+// never undone, or it is initialised once as a copy of such a config taken after that store —
+// and in both cases the initialisation precedes every hand-over.
+func (f *c02CfgFacts) wrapped(a *ssa.Alloc) string {
+	if w, ok := f.memo[a]; ok {
+		return w
+	}
+	if f.busy[a] {
+		return "the config is defined in terms of itself"
+	}
+	f.busy[a] = true
+	defer delete(f.busy, a)
+	w := f.wrapped1(a)
+	f.memo[a] = w
+	return w
+}
+
+func (f *c02CfgFacts) wrapped1(a *ssa.Alloc) string {
+	fn := a.Parent()
+	if a.Referrers() == nil {
+		return "the config is never initialised"
+	}
+	var wraps []ssa.Instruction // instructions that set WrapTransport
+	wrapOK := true
+	var whole []*ssa.Store
+	var escapes []ssa.Instruction
+	for _, r := range *a.Referrers() {
+		switch u := r.(type) {
+		case *ssa.FieldAddr:
+			if u.X != ssa.Value(a) || u.Referrers() == nil {
+				continue
+			}
+			isWrapField := eng.FieldAddrOf(u, c02TRestConfig, "WrapTransport")
+			for _, rr := range *u.Referrers() {
+				switch x := rr.(type) {
+				case *ssa.Store:
+					if x.Addr == ssa.Value(u) && isWrapField {
+						wraps = append(wraps, x)
+						wrapOK = wrapOK && f.isCtor(x.Val)
+					}
+				case *ssa.UnOp, *ssa.DebugRef, *ssa.FieldAddr:
+				default:
+					if isWrapField {
+						wrapOK = false // the field's address escapes
+					}
+				}
+			}
+		case *ssa.Store:
+			if u.Addr == ssa.Value(a) {
+				whole = append(whole, u)
+			} else {
+				escapes = append(escapes, u)
+			}
+		case *ssa.UnOp, *ssa.DebugRef:
+		case ssa.CallInstruction:
+			// a helper that installs the wrapper on the config it is given, on every path
+			if g := u.Common().StaticCallee(); g != nil && eng.Analysable(g) {
+				set := false
+				for i, arg := range u.Common().Args {
+					if arg != ssa.Value(a) || i >= len(g.Params) {
+						continue
+					}
+					for _, st := range eng.StoresToField([]*ssa.Function{g}, c02TRestConfig, "WrapTransport") {
+						if st.Addr.(*ssa.FieldAddr).X == ssa.Value(g.Params[i]) {
+							set = true
+							wrapOK = wrapOK && f.isCtor(st.Val) && eng.LiftMust(func(x ssa.Instruction) bool { return x == ssa.Instruction(st) })(u)
+						}
+					}
+				}
+				if set {
+					wraps = append(wraps, u)
+					continue
+				}
+			}
+			escapes = append(escapes, u)
+		default:
+			escapes = append(escapes, r)
+		}
+	}
+	var init ssa.Instruction
+	switch {
+	case len(wraps) > 1:
+		return "WrapTransport of the config is written more than once"
+	case len(wraps) == 1:
+		if !wrapOK {
+			return "WrapTransport of the config is not the impersonating round tripper"
+		}
+		init = wraps[0]
+		for _, w := range whole {
+			if eng.ReachAfter(init, eng.PathQuery{Target: func(i ssa.Instruction) bool { return i == ssa.Instruction(w) }}) != nil {
+				return "the config is overwritten after the wrapper was stored"
+			}
+		}
+	default:
+		if len(whole) != 1 {
+			return fmt.Sprintf("the config is initialised %d times", len(whole))
+		}
+		ld, isLd := whole[0].Val.(*ssa.UnOp)
+		if !isLd || ld.Op != token.MUL {
+			return "the config is not a copy of the wrapped config"
+		}
+		srcs, ok := f.allocs(ld.X)
+		if !ok {
+			return "the config is not a copy of the wrapped config"
+		}
+		for _, s := range srcs {
+			if w := f.wrapped(s); w != "" {
+				return "the config is not a copy of the wrapped config"
+			}
+			if s.Parent() == fn {
+				si := f.initOf(s)
+				if si == nil || !eng.AlwaysBefore(fn, ld, func(i ssa.Instruction) bool { return i == si }) {
+					return "the copy is taken before the wrapper is stored"
+				}
+			}
+		}
+		init = whole[0]
+	}
+	for _, e := range escapes {
+		if e.Parent() != fn {
+			continue
+		}
+		if !eng.AlwaysBefore(fn, e, func(i ssa.Instruction) bool { return i == init }) {
+			if eng.IsCall(e, "k8s.io/client-go/rest.TransportFor") {
+				return "TransportFor runs before the wrapper is stored"
+			}
+			return "the config is handed on before the wrapper is stored"
+		}
+	}
+	f.setInit(a, init)
+	return ""
+}
+
+func (f *c02CfgFacts) setInit(a *ssa.Alloc, i ssa.Instruction) { f.inits[a] = i }
+
+// initOf returns the instruction from which on config object a carries the wrapper (nil: never).
+func (f *c02CfgFacts) initOf(a *ssa.Alloc) ssa.Instruction {
+	if f.wrapped(a) != "" {
+		return nil
+	}
+	return f.inits[a]
+}
+
+// c02LeavesUpStop returns the leaves of v's slice (values satisfying stop are leaves); a leaf
+// that is a parameter of an extracted helper (complete set of call sites known) is replaced by
+// the leaves of the arguments bound to it at the call sites.
+func c02LeavesUpStop(c *eng.Ctx, v ssa.Value, stop func(ssa.Value) bool) []ssa.Value {
+	sl := c.Slicer()
+	var out []ssa.Value
+	seen := map[ssa.Value]bool{}
+	done := map[ssa.Value]bool{}
+	var visit func(v ssa.Value, depth int)
+	visit = func(v ssa.Value, depth int) {
+		if done[v] {
+			return
+		}
+		done[v] = true
+		for _, l := range sl.Leaves(v, stop) {
+			if p, ok := l.(*ssa.Parameter); ok && depth > 0 && (stop == nil || !stop(l)) {
+				if ups := c.W.UpArgSites(p); len(ups) > 0 {
+					for _, u := range ups {
+						visit(u.Arg, depth-1)
+					}
+					continue
+				}
+			}
+			if !seen[l] {
+				seen[l] = true
+				out = append(out, l)
+			}
+		}
+	}
+	visit(v, eng.LiftDepth)
+	return out
 }
 
 // c02FieldBase returns the struct a field load selects from (nil if v is not one).
@@ -1338,44 +2302,6 @@ func c02FieldBase(v ssa.Value) ssa.Value {
 		return n.X
 	}
 	return nil
-}
-
-// c02StoreTo reports whether some Store writes through address a.
-func c02StoreTo(a ssa.Value) (*ssa.Store, bool) {
-	if a.Referrers() == nil {
-		return nil, false
-	}
-	for _, r := range *a.Referrers() {
-		if st, ok := r.(*ssa.Store); ok && st.Addr == a {
-			return st, true
-		}
-	}
-	return nil, false
-}
-
-// c02CopyAfter returns "" when local config dst is initialised by exactly one whole-value
-// store `*dst = *src` executed after the wrapper store.
-func c02CopyAfter(dst *ssa.Alloc, src ssa.Value, after func(ssa.Instruction) bool) string {
-	n := 0
-	why := ""
-	for _, r := range *dst.Referrers() {
-		st, ok := r.(*ssa.Store)
-		if !ok || st.Addr != ssa.Value(dst) {
-			continue
-		}
-		n++
-		ld, isLd := st.Val.(*ssa.UnOp)
-		switch {
-		case !isLd || ld.Op != token.MUL || ld.X != src:
-			why = "the config is not a copy of the wrapped config"
-		case !after(ld):
-			why = "the copy is taken before the wrapper is stored"
-		}
-	}
-	if n != 1 && why == "" {
-		why = fmt.Sprintf("the config is initialised %d times", n)
-	}
-	return why
 }
 
 // ---------------------------------------------------------------------------------------
@@ -1623,22 +2549,24 @@ func c02RangeSanitizers(fn *ssa.Function, rng *ssa.Range, voc c02Vocab) []c02San
 	}
 	for b := range scc {
 		for _, ins := range b.Instrs {
-			hp, ok := ins.(*ssa.Call)
-			if !ok || !eng.IsCall(hp, voc.hasPrefix) {
+			call, ok := ins.(*ssa.Call)
+			if !ok {
 				continue
 			}
-			p, isConst := eng.StringConst(hp.Call.Args[1])
-			fold := folded(hp.Call.Args[0])
-			if !isConst || fold == "" {
+			// the prefix test: strings.HasPrefix(fold(key), "…") itself, or a predicate helper that
+			// answers `match` whenever that test is true for its argument
+			test, found := c02PrefixTest(call, voc, folded, 2)
+			if !found {
 				continue
 			}
-			s := c02Sanitizer{at: rng, header: rng.X, prefix: p, fold: fold, complete: true}
-			switch fold {
+			hp := call
+			s := c02Sanitizer{at: rng, header: rng.X, prefix: test.prefix, fold: test.fold, complete: true}
+			switch test.fold {
 			case "lower":
-				s.family = p == "impersonate-"
+				s.family = test.prefix == "impersonate-"
 			default:
 				// keys of an incoming http.Header are canonical: a case-sensitive test must use the canonical prefix
-				s.family = p == "Impersonate-"
+				s.family = test.prefix == "Impersonate-"
 			}
 			if early {
 				s.complete, s.why = false, "the loop can be left before all keys were visited"
@@ -1646,18 +2574,26 @@ func c02RangeSanitizers(fn *ssa.Function, rng *ssa.Range, voc c02Vocab) []c02San
 			if x := eng.ReachFromBlock(body, eng.PathQuery{Target: backOrOut, Avoid: func(i ssa.Instruction) bool { return i == ssa.Instruction(hp) }}); x != nil {
 				s.complete, s.why = false, "some keys skip the prefix test"
 			}
-			brs := eng.BranchesOn(hp)
+			// the blocks entered when the key has the prefix
+			var matchBlocks []*ssa.BasicBlock
+			for _, br := range eng.BranchesOn(hp) {
+				if test.match {
+					matchBlocks = append(matchBlocks, br.OnTrue)
+				} else {
+					matchBlocks = append(matchBlocks, br.OnFalse)
+				}
+			}
 			deletes := false
-			for _, br := range brs {
-				if eng.ReachFromBlock(br.OnTrue, eng.PathQuery{Target: isDelete, Avoid: backOrOut}) != nil {
+			for _, mb := range matchBlocks {
+				if eng.ReachFromBlock(mb, eng.PathQuery{Target: isDelete, Avoid: backOrOut}) != nil {
 					deletes = true
 				}
 			}
 			if !deletes {
 				continue // a loop that only reads the matching keys is not a sanitizer
 			}
-			for _, br := range brs {
-				if x := eng.ReachFromBlock(br.OnTrue, eng.PathQuery{Target: backOrOut, Avoid: isDelete}); x != nil {
+			for _, mb := range matchBlocks {
+				if x := eng.ReachFromBlock(mb, eng.PathQuery{Target: backOrOut, Avoid: isDelete}); x != nil {
 					s.complete, s.why = false, "a matching key is not deleted from the ranged header on some path"
 				}
 			}
@@ -1667,18 +2603,179 @@ func c02RangeSanitizers(fn *ssa.Function, rng *ssa.Range, voc c02Vocab) []c02San
 	return out
 }
 
-func c02R5(c *eng.Ctx, filter, cl *ssa.Function) {
-	nexts := c02NextHandlerCalls(c, cl, filter)
+// c02Prefix describes a boolean call that tests a header key against a constant prefix.
+type c02Prefix struct {
+	prefix string
+	fold   string // how the key is folded before the comparison: "identity" | "lower" | "canonical"
+	match  bool   // the value the call yields whenever the (folded) key has the prefix
+}
+
+// c02PrefixTest recognises call as a prefix test of the ranged key: voc.hasPrefix(fold(key),
+// const), or a call p(fold(key)) of a same-repository predicate helper that contains exactly
+// one such test of its parameter and — decided by forcing that inner test to true in the
+// path-enumerating interpreter — yields one and the same boolean constant on every path on
+// which the key has the prefix (so `return HasPrefix(…)`, `if !HasPrefix(…) { return false };
+// return true` and the negated "isOther" forms are all accepted, while a helper that also
+// consults something else is not). folded tells how a value relates to the ranged key.
+func c02PrefixTest(call *ssa.Call, voc c02Vocab, folded func(ssa.Value) string, depth int) (c02Prefix, bool) {
+	if eng.IsCall(call, voc.hasPrefix) {
+		p, isConst := eng.StringConst(call.Call.Args[1])
+		fold := folded(call.Call.Args[0])
+		if !isConst || fold == "" {
+			return c02Prefix{}, false
+		}
+		return c02Prefix{prefix: p, fold: fold, match: true}, true
+	}
+	g := call.Call.StaticCallee()
+	if depth <= 0 || g == nil || g.Blocks == nil || g.Pkg == nil || call.Call.IsInvoke() {
+		return c02Prefix{}, false
+	}
+	if path := g.Pkg.Pkg.Path(); !eng.IsRepoPkg(path) && path != "fx" {
+		return c02Prefix{}, false
+	}
+	if res := g.Signature.Results(); res.Len() != 1 || !types.Identical(res.At(0).Type().Underlying(), types.Typ[types.Bool]) {
+		return c02Prefix{}, false
+	}
+	// the argument that carries the key, and how it is folded at the call site
+	outer, pidx := "", -1
+	for i, a := range call.Call.Args {
+		if f := folded(a); f != "" && i < len(g.Params) {
+			if pidx >= 0 {
+				return c02Prefix{}, false
+			}
+			outer, pidx = f, i
+		}
+	}
+	if pidx < 0 {
+		return c02Prefix{}, false
+	}
+	param := ssa.Value(g.Params[pidx])
+	innerFolded := func(v ssa.Value) string {
+		if v == param {
+			return "identity"
+		}
+		cc, _ := eng.CallResultOf(v)
+		if cc != nil && len(voc.lower) > 0 && eng.IsCall(cc, voc.lower...) && cc.Call.Args[0] == param {
+			return "lower"
+		}
+		if cc != nil && len(voc.canonical) > 0 && eng.IsCall(cc, voc.canonical...) && cc.Call.Args[0] == param {
+			return "canonical"
+		}
+		return ""
+	}
+	var inner *ssa.Call
+	var test c02Prefix
+	n := 0
+	for _, ci := range eng.Calls(g) {
+		ic, ok := ci.(*ssa.Call)
+		if !ok {
+			continue
+		}
+		if t, found := c02PrefixTest(ic, voc, innerFolded, depth-1); found {
+			inner, test = ic, t
+			n++
+		}
+	}
+	if n != 1 {
+		return c02Prefix{}, false
+	}
+	// forcing: whenever the inner test says "has the prefix", g returns the same constant
+	in := &eng.Interp{W: eng.Current, Depth: 0, MaxPaths: 256, PinCall: func(c *ssa.Call, idx int, st *eng.State) (eng.AV, bool) {
+		if c == inner {
+			return eng.AVBool(test.match), true
+		}
+		return eng.AV{}, false
+	}}
+	paths, err := in.Run(g, nil)
+	if err != nil || len(paths) == 0 {
+		return c02Prefix{}, false
+	}
+	var val *bool
+	for _, p := range paths {
+		if p.LoopCut || p.Panicked || len(p.Ret) != 1 {
+			return c02Prefix{}, false
+		}
+		for _, b := range []bool{true, false} {
+			if p.Ret[0].IsBool(b) {
+				b := b
+				if val != nil && *val != b {
+					return c02Prefix{}, false
+				}
+				val = &b
+			}
+		}
+		if !p.Ret[0].IsBool(true) && !p.Ret[0].IsBool(false) {
+			return c02Prefix{}, false
+		}
+	}
+	if val == nil {
+		return c02Prefix{}, false
+	}
+	// folding: the fold applied last decides (lower(canonical(k)) is a lower-case key, canonical(lower(k)) a canonical one)
+	fold := test.fold
+	if fold == "identity" {
+		fold = outer
+	}
+	return c02Prefix{prefix: test.prefix, fold: fold, match: *val}, true
+}
+
+// c02SanitizedBefore decides whether every execution of x, which forwards request reqVal,
+// is preceded by a complete family sanitizer over that request's header: inside x's own
+// function, or — when x sits in an extracted helper that receives the request as a parameter
+// (the shared "strip the headers and serve" tail) — before every call site of the helper, on
+// the request passed there.
+func c02SanitizedBefore(c *eng.Ctx, x ssa.Instruction, reqVal ssa.Value, depth int) bool {
+	fn := x.Parent()
+	sans := c02FindSanitizers(c.W, fn, c02RealVocab, c.Depth)
+	fwd := c02Roots(reqVal)
+	good := func(i ssa.Instruction) bool {
+		for _, s := range sans {
+			if s.at == i && s.family && s.complete && c02SameRoots(c02Roots(s.header), fwd) {
+				return true
+			}
+		}
+		return false
+	}
+	if eng.ReachFromEntry(fn, eng.PathQuery{
+		Target: func(i ssa.Instruction) bool { return i == x },
+		Avoid:  func(i ssa.Instruction) bool { return i != x && good(i) },
+	}) == nil {
+		return true
+	}
+	if depth <= 0 || len(fwd) != 1 {
+		return false
+	}
+	var p *ssa.Parameter
+	for r := range fwd {
+		p, _ = r.(*ssa.Parameter)
+	}
+	if p == nil || p.Parent() != fn {
+		return false
+	}
+	ups := c.W.UpArgSites(p)
+	if len(ups) == 0 {
+		return false
+	}
+	for _, u := range ups {
+		if !c02SanitizedBefore(c, u.Site, u.Arg, depth-1) {
+			return false
+		}
+	}
+	return true
+}
+
+func c02R5(c *eng.Ctx, filter *ssa.Function, hd *c02Handler) {
+	cl := hd.fn
+	nexts := c02Forwards(c, hd, filter)
 	if len(nexts) == 0 {
 		c.Fail("R5", cl, "family sanitizer before the next handler", cl.Pos(), "no call of the wrapped handler found")
 		return
 	}
-	builds := eng.CallsTo(cl, pkgFilters+".buildImpersonationRequests")
+	builds, _ := c02ParseCall(c, c.W.Region(cl))
 	isReqs := func(v ssa.Value) bool {
 		cc, i := eng.CallResultOf(v)
-		return cc != nil && i == 0 && len(builds) == 1 && ssa.CallInstruction(cc) == builds[0]
+		return cc != nil && i == 0 && len(builds) == 1 && cc == builds[0]
 	}
-	sans := c02FindSanitizers(c.W, cl, c02RealVocab, c.Depth)
 
 	// alternative: the transport sanitises every request it returns
 	transportOK := false
@@ -1710,35 +2807,30 @@ func c02R5(c *eng.Ctx, filter, cl *ssa.Function) {
 	}
 
 	seen := map[string]int{}
-	for _, site := range nexts {
+	for _, nx := range nexts {
+		site := nx.site
 		kind := "impersonated"
 		if eng.GuardedBy(site, func(r eng.Rel) bool {
+			r = eng.NormRel(r)
 			ln := c02IsBuiltin(r.X, "len")
 			z, isZ := eng.IntConst(r.Y)
 			return ln != nil && isReqs(ln.Call.Args[0]) && isZ && z == 0 && (r.Op == token.EQL || r.Op == token.LEQ)
 		}) {
 			kind = "pass-through"
 		}
-		fwd := c02Roots(eng.Args(site)[1])
-		var related []string
-		good := func(i ssa.Instruction) bool {
-			for _, s := range sans {
-				if s.at == i && s.family && s.complete && c02SameRoots(c02Roots(s.header), fwd) {
-					return true
-				}
-			}
-			return false
-		}
-		ok := eng.AlwaysBefore(cl, site, good)
+		ok := c02SanitizedBefore(c, nx.call, eng.Args(nx.call)[1], eng.LiftDepth)
 		desc := "family"
 		if !ok {
-			// describe what is there instead: impersonation-prefix sanitizers that can run before the site
-			for _, s := range sans {
-				if !strings.HasPrefix(strings.ToLower(s.prefix), "impersonate") {
-					continue
-				}
-				if eng.ReachAfter(s.at, eng.PathQuery{Target: func(i ssa.Instruction) bool { return i == ssa.Instruction(site) }}) != nil {
-					related = append(related, s.String())
+			// describe what is there instead: impersonation-prefix sanitizers that can run before the forward
+			var related []string
+			for _, at := range []ssa.Instruction{nx.call, site} {
+				for _, s := range c02FindSanitizers(c.W, at.Parent(), c02RealVocab, c.Depth) {
+					if !strings.HasPrefix(strings.ToLower(s.prefix), "impersonate") {
+						continue
+					}
+					if eng.ReachAfter(s.at, eng.PathQuery{Target: func(i ssa.Instruction) bool { return i == at }}) != nil {
+						related = append(related, s.String())
+					}
 				}
 			}
 			sort.Strings(related)
@@ -1865,6 +2957,59 @@ func badBypass(r *Request, c bool) {
 	strip(r.Header)
 	next(r)
 }
+func isImp(k string) bool { return hasPrefix(lower(k), "impersonate-") }
+func goodPredicate(r *Request) {
+	for k := range r.Header {
+		if !isImp(k) {
+			continue
+		}
+		delete(r.Header, k)
+	}
+	next(r)
+}
+func notImp(k string) bool {
+	if hasPrefix(lower(k), "impersonate-") {
+		return false
+	}
+	return true
+}
+func goodNegPredicate(r *Request) {
+	for k := range r.Header {
+		if notImp(k) {
+			continue
+		}
+		r.Header.Del(k)
+	}
+	next(r)
+}
+func isImpButUid(k string) bool {
+	return hasPrefix(lower(k), "impersonate-") && !hasPrefix(lower(k), "impersonate-uid")
+}
+func badPredicateSpares(r *Request) {
+	for k := range r.Header {
+		if isImpButUid(k) {
+			delete(r.Header, k)
+		}
+	}
+	next(r)
+}
+func isImpLong(k string, n int) bool { return len(k) > n && hasPrefix(lower(k), "impersonate-") }
+func badPredicateExtraCond(r *Request) {
+	for k := range r.Header {
+		if isImpLong(k, 12) {
+			delete(r.Header, k)
+		}
+	}
+	next(r)
+}
+func badPredicateInverted(r *Request) {
+	for k := range r.Header {
+		if notImp(k) {
+			delete(r.Header, k)
+		}
+	}
+	next(r)
+}
 func maybeStrip(h Header, c bool) {
 	if c {
 		return
@@ -1892,7 +3037,8 @@ func c02Fixtures(c *eng.Ctx) {
 		},
 	}
 	want := map[string]bool{
-		"goodInline": true, "goodHelper": true, "goodCanon": true,
+		"goodInline": true, "goodHelper": true, "goodCanon": true, "goodPredicate": true, "goodNegPredicate": true,
+		"badPredicateSpares": false, "badPredicateExtraCond": false, "badPredicateInverted": false,
 		"badNarrow": false, "badCase": false, "badBreak": false, "badSkip": false, "badOtherMap": false,
 		"badDeleteFolded": false, "badBypass": false, "badHelperBypass": false,
 	}
@@ -1935,15 +3081,37 @@ func c02Fixtures(c *eng.Ctx) {
 // verbatim path. The upstream percent-decodes Impersonate-Extra-<key>; a key forwarded with
 // a literal "%2f" would be read as "/" — an extra key the gateway never authenticated or
 // authorised.
-func c02Escape(c *eng.Ctx) {
+func c02Escape(c *eng.Ctx, escapers []*ssa.Function) {
 	c.Rule("R3e", "extra keys are escaped injectively: the escaper's byte predicate is true for '%'; the escaper writes a byte raw only when the predicate is false for that byte; its result is built only from what it wrote (no path returns the key verbatim)", 3)
-	esc := c.MustFunc(pkgTransport, "headerKeyEscape")
-	if esc == nil {
-		return
+	// the escaper is the function WrapRequest applies to the extra key (found by R3 in the
+	// header-name expression); by name only when R3 did not get that far
+	var escs []*ssa.Function
+	for _, e := range escapers {
+		dup := false
+		for _, x := range escs {
+			dup = dup || x == e
+		}
+		if !dup && e != nil && e.Blocks != nil {
+			escs = append(escs, e)
+		}
 	}
-	// the byte predicate: the bool function of one byte called in the escaper's loop
+	if len(escs) == 0 {
+		if esc := c.MustFunc(pkgTransport, "headerKeyEscape"); esc != nil {
+			escs = append(escs, esc)
+		}
+	}
+	for _, esc := range escs {
+		c02Escape1(c, esc)
+	}
+}
+
+func c02Escape1(c *eng.Ctx, esc *ssa.Function) {
+	// the byte predicate: the bool function of one byte called in the escaper's loop (there may
+	// be none when the test is written in place, or it may be the "legal byte" test with the
+	// '%' case written next to it)
 	var pred *ssa.Function
 	var predCalls []*ssa.Call
+	preds := map[*ssa.Function]bool{}
 	for _, ci := range eng.Calls(esc) {
 		f := eng.CalleeFn(ci)
 		call, isCall := ci.(*ssa.Call)
@@ -1952,30 +3120,64 @@ func c02Escape(c *eng.Ctx) {
 		}
 		if b, ok := f.Signature.Results().At(0).Type().Underlying().(*types.Basic); ok && b.Kind() == types.Bool && eng.InLoop(call.Block()) {
 			pred = f
+			preds[f] = true
 			predCalls = append(predCalls, call)
 		}
 	}
-	if pred == nil {
-		c.Fail("R3e", esc, "byte predicate of the escaper", esc.Pos(), "the escaper does not consult a per-byte predicate")
-		return
+	if len(preds) > 1 {
+		pred = nil
 	}
-	// (a) forcing: predicate('%') is true on every path
-	in := &eng.Interp{W: c.W, Depth: 0}
-	paths, err := in.Run(pred, []eng.AV{eng.AVInt('%')})
-	ok := err == nil && len(paths) > 0
-	for _, p := range paths {
-		if p.LoopCut || p.Panicked || len(p.Ret) != 1 || !p.Ret[0].IsBool(true) {
-			ok = false
-		}
-	}
-	c.Check("R3e", pred, "'%' must be escaped", pred.Pos(), ok, "the predicate that decides which bytes are %-encoded must be true for '%' itself, otherwise \"a%2fb\" and \"a/b\" are sent as the same header name")
-	// (b) raw writes only when the predicate is false for that byte
-	rawOK, nRaw := true, 0
+	// the raw writes, and for each whether the facts under which it executes — the escaper's
+	// own guards, with predicate helpers expanded — say that the byte written is not '%'
+	var raws []ssa.CallInstruction
 	for _, ci := range eng.Calls(esc) {
-		if !eng.IsCall(ci, "(*strings.Builder).WriteByte", "(*strings.Builder).WriteRune", "(*strings.Builder).WriteString", "(*bytes.Buffer).WriteByte") {
-			continue
+		if eng.IsCall(ci, "(*strings.Builder).WriteByte", "(*strings.Builder).WriteRune", "(*strings.Builder).WriteString", "(*bytes.Buffer).WriteByte") {
+			raws = append(raws, ci)
 		}
-		nRaw++
+	}
+	isPercent := func(v ssa.Value) bool { k, ok := eng.IntConst(v); return ok && k == '%' }
+	sameByte := func(v, arg ssa.Value) bool {
+		strip := func(x ssa.Value) ssa.Value {
+			for {
+				switch n := x.(type) {
+				case *ssa.Convert:
+					x = n.X
+					continue
+				case *ssa.ChangeType:
+					x = n.X
+					continue
+				}
+				return x
+			}
+		}
+		return eng.SameValue(strip(v), strip(arg))
+	}
+	neverPercent := len(raws) > 0
+	for _, ci := range raws {
+		arg := eng.Args(ci)[0]
+		if !eng.HoldsAt(ci, func(r eng.Rel) bool {
+			return r.Op == token.NEQ && ((isPercent(r.Y) && sameByte(r.X, arg)) || (isPercent(r.X) && sameByte(r.Y, arg)))
+		}) {
+			neverPercent = false
+		}
+	}
+	// (a) '%' is escaped: forcing — the predicate is true for '%' on every path (and, by (b), raw
+	// writes happen only when it is false) — or, whatever the predicate is, every raw write
+	// executes under byte != '%'
+	okForce := false
+	if pred != nil {
+		in := &eng.Interp{W: c.W, Depth: 0}
+		paths, err := in.Run(pred, []eng.AV{eng.AVInt('%')})
+		okForce = err == nil && len(paths) > 0
+		for _, p := range paths {
+			if p.LoopCut || p.Panicked || len(p.Ret) != 1 || !p.Ret[0].IsBool(true) {
+				okForce = false
+			}
+		}
+	}
+	// (b) raw writes only when the predicate is false for that byte
+	rawOK := len(raws) > 0 && pred != nil
+	for _, ci := range raws {
 		arg := eng.Args(ci)[0]
 		guarded := eng.GuardedByBool(ci, func(v ssa.Value) bool {
 			for _, pc := range predCalls {
@@ -1989,7 +3191,12 @@ func c02Escape(c *eng.Ctx) {
 			rawOK = false
 		}
 	}
-	c.Check("R3e", esc, "raw bytes only when the predicate is false", esc.Pos(), rawOK && nRaw > 0, "a byte is copied unescaped although the predicate was not consulted for it (or said it must be escaped)")
+	at := esc
+	if pred != nil {
+		at = pred
+	}
+	c.Check("R3e", at, "'%' must be escaped", at.Pos(), (okForce && rawOK) || neverPercent, "the test that decides which bytes are %-encoded must hold for '%' itself, otherwise \"a%2fb\" and \"a/b\" are sent as the same header name")
+	c.Check("R3e", esc, "raw bytes only when the predicate is false", esc.Pos(), rawOK || neverPercent, "a byte is copied unescaped although the predicate was not consulted for it (or said it must be escaped)")
 	// (c) no verbatim return
 	verbatim := false
 	sl := &eng.Slicer{W: c.W, Depth: 0}
